@@ -229,18 +229,49 @@ Proof. reflexivity. Qed.
 (* ------------------------------------------------- printable programs *)
 Definition str_ok (s : bytes) : bool :=
   forallb (fun c => negb (c =? 34)%N && negb (c =? 92)%N) s.
-Definition var_ok (x : bytes) : bool := is_varname (word_kind (runes_of x)).
+Definition is_distinct (k : kind) : bool := match k with KDistinct => true | _ => false end.
+(* a variable / parameter name: an identifier or a safe reserved word other
+   than DISTINCT (RETURN DISTINCT x would read it as the keyword) *)
+Definition var_ok (x : bytes) : bool :=
+  is_varname (word_kind (runes_of x)) && negb (is_distinct (word_kind (runes_of x))).
 Definition call_ok (f : bytes) : bool :=
   is_ident (word_kind (runes_of f)) && bytes_eqb (upper_name f) f.
 Definition int_ok (z : Z) : bool :=
   (0 <=? z)%Z &&
   match int_value (digits (Z.to_N z)) with Some z' => (z' =? z)%Z | None => false end.
+(* loop variables, COLLECT / AGGREGATE / INTO names: plain identifiers *)
+Definition ident_ok (x : bytes) : bool := is_ident (word_kind (runes_of x)).
+(* LET names: identifier, '_' , safe reserved word *)
+Definition let_ok (x : bytes) : bool :=
+  is_varname (word_kind (runes_of x)) || is_loopvar (word_kind (runes_of x)).
+Definition range_op (a : expr) : bool :=
+  match a with EInt z => int_ok z | EVar x | EParam x => var_ok x | _ => false end.
+Definition member_src (s : expr) : bool :=
+  match s with EVar _ | EParam _ | EArr _ | EObj _ | ECall _ _ => true | _ => false end.
+Definition is_nil {A} (l : list A) : bool := match l with [] => true | _ => false end.
+(* forExpressionSource / limitClauseValue as the printer can write them *)
+Definition source_ok (s : expr) : bool :=
+  match s with
+  | EVar _ | EParam _ | EArr _ | EObj _ | ECall _ _ | EMember _ _ | ERange _ _ => true
+  | _ => false
+  end.
+Definition limit_ok (s : expr) : bool :=
+  match s with EInt _ | EVar _ | EParam _ | ECall _ _ | EMember _ _ => true | _ => false end.
+Definition call_stmt_ok (e : expr) : bool :=
+  match e with ECall _ _ => true | ESuppress (ECall _ _) => true | _ => false end.
+Definition counts_or_aggr (t : ctail) : bool :=
+  match t with CTCount _ | CTAggr _ => true | _ => false end.
 
-(* the expression sub-language of the round-trip theorem *)
+(* the class of programs of the round-trip theorems: everything the AST has
+   except float literals, with names, strings and integers the lexer reads
+   back (see the *_ok predicates), member sources / loop sources / LIMIT
+   values of the shapes the grammar allows, and no error-suppressed call as a
+   loop source or LIMIT value *)
 Fixpoint printable (e : expr) : bool :=
   match e with
   | ENone | EBool _ => true
   | EInt z => int_ok z
+  | EFloat _ => false
   | EStr s => str_ok s
   | EVar x | EParam x => var_ok x
   | EUn _ a | ESuppress a => printable a
@@ -250,8 +281,58 @@ Fixpoint printable (e : expr) : bool :=
       printable c && match t with Some t' => printable t' | None => true end && printable f
   | EArr es => forallb printable es
   | ECall f args => call_ok f && forallb printable args
-  | _ => false
+  | EObj ps => forallb printable_prop ps
+  | ERange a b => range_op a && range_op b
+  | EMember s p => member_src s && printable s && negb (is_nil p) && forallb printable_seg p
+  | ESub q => printable_for q
+  end
+with printable_prop (p : prop) : bool :=
+  match p with
+  | PNamed _ e => printable e
+  | PComputed k e => printable k && printable e
+  | PShort x => var_ok x
+  end
+with printable_seg (s : seg) : bool :=
+  match s with
+  | Seg _ e => match e with EStr nm => is_word_text nm || str_ok nm | _ => printable e end
+  end
+with printable_for (q : forq) : bool :=
+  match q with
+  | ForIn v k s bd r =>
+      ident_ok v && match k with Some k' => ident_ok k' | None => true end
+      && source_ok s && printable s && forallb printable_clause bd && printable_ret r
+  | ForWhile v d c bd r =>
+      ident_ok v && printable c && forallb printable_clause bd && printable_ret r
+  end
+with printable_clause (c : fclause) : bool :=
+  match c with
+  | CLet x e => let_ok x && printable e
+  | CCall e => call_stmt_ok e && printable e
+  | CFilter e => printable e
+  | CSort ks => negb (is_nil ks) && forallb (fun kd => printable (fst kd)) ks
+  | CLimit o n =>
+      match o with Some a => limit_ok a && printable a | None => true end
+      && limit_ok n && printable n
+  | CCollect gs t =>
+      forallb (fun g => ident_ok (fst g) && printable (snd g)) gs && printable_ctail t
+      && (negb (is_nil gs) || counts_or_aggr t)
+  end
+with printable_ctail (t : ctail) : bool :=
+  match t with
+  | CTNone => true
+  | CTInto x p => ident_ok x && match p with Some e => printable e | None => true end
+  | CTCount x => ident_ok x
+  | CTAggr ss =>
+      negb (is_nil ss)
+      && forallb (fun s => ident_ok (fst (fst s)) && call_ok (snd (fst s)) && forallb printable (snd s)) ss
+  end
+with printable_ret (r : fret) : bool :=
+  match r with
+  | RReturn _ e => printable e
+  | RFor q => printable_for q
   end.
+
+Definition sum_by {A} (f : A -> nat) (l : list A) : nat := fold_right (fun x n => f x + n) 0 l.
 
 Fixpoint size (e : expr) : nat :=
   match e with
@@ -260,12 +341,55 @@ Fixpoint size (e : expr) : nat :=
   | EMath _ a b => S (size a + size b)
   | ECond c t f => S (size c + match t with Some t' => size t' | None => 0 end + size f)
   | EArr es | ECall _ es => S (fold_right (fun x n => size x + n) 0 es)
+  | EObj ps => S (fold_right (fun x n => size_prop x + n) 0 ps)
+  | EMember s p =>
+      match p with
+      | [] => size s
+      | _ => S (size s + fold_right (fun x n => size_seg x + n) 0 p)
+      end
+  | ESub q => S (size_for q)
   | _ => 1
+  end
+with size_prop (p : prop) : nat :=
+  match p with
+  | PNamed _ e => S (size e)
+  | PComputed k e => S (size k + size e)
+  | PShort _ => 1
+  end
+with size_seg (s : seg) : nat :=
+  match s with Seg _ e => size e end
+with size_for (q : forq) : nat :=
+  match q with
+  | ForIn _ _ s bd r => S (S (size s + fold_right (fun x n => size_clause x + n) 0 bd + size_ret r))
+  | ForWhile _ _ c bd r => S (S (size c + fold_right (fun x n => size_clause x + n) 0 bd + size_ret r))
+  end
+with size_clause (c : fclause) : nat :=
+  match c with
+  | CLet _ e | CFilter e => S (size e)
+  | CCall e => size e
+  | CSort ks => S (fold_right (fun x n => size (fst x) + n) 0 ks)
+  | CLimit o n => S (match o with Some a => size a | None => 0 end + size n)
+  | CCollect gs t => S (fold_right (fun x n => size (snd x) + n) 0 gs + size_ctail t)
+  end
+with size_ctail (t : ctail) : nat :=
+  match t with
+  | CTNone => 0
+  | CTInto _ p => S (match p with Some e => size e | None => 0 end)
+  | CTCount _ => 1
+  | CTAggr ss => S (fold_right (fun x n => S (fold_right (fun y m => size y + m) 0 (snd x)) + n) 0 ss)
+  end
+with size_ret (r : fret) : nat :=
+  match r with
+  | RReturn _ e => S (size e)
+  | RFor q => S (size_for q)
   end.
 Definition need (e : expr) : nat := 64 * size e.
 
 Lemma size_pos : forall e, 1 <= size e.
-Proof. destruct e; simpl; lia. Qed.
+Proof. induction e; simpl; try lia. destruct path; lia. Qed.
+
+Lemma size_member : forall s p, p <> [] -> size (EMember s p) = S (size s + sum_by size_seg p).
+Proof. intros s p H. destruct p; [congruence|reflexivity]. Qed.
 
 Lemma size_in : forall (es : list expr) x, In x es -> size x <= fold_right (fun x n => size x + n) 0 es.
 Proof.
@@ -276,7 +400,8 @@ Qed.
 (* ----------------------------------------------------- token facts *)
 Definition good_head (k : kind) : bool :=
   match k with
-  | KNone | KBool | KInt | KString | KParam | KNot | KMinus | KPlus | KLBrack | KLParen => true
+  | KNone | KBool | KInt | KString | KParam | KNot | KMinus | KPlus | KLBrack | KLParen | KLBrace => true
+  | KDistinct => false
   | _ => is_varname k
   end.
 
@@ -404,7 +529,7 @@ Qed.
 
 (* ------------------------------------------------ contexts *)
 Definition closer (k : kind) : bool :=
-  match k with KRParen | KRBrack | KComma | KColon => true | _ => false end.
+  match k with KRParen | KRBrack | KRBrace | KComma | KColon => true | _ => false end.
 
 Lemma stops_closer : forall k t r l, closer k = true -> stops l ((k, t) :: r).
 Proof.
@@ -515,8 +640,16 @@ Proof.
 Qed.
 
 (* ====================================================== the round trip *)
-Lemma good_head_varname : forall k, is_varname k = true -> good_head k = true /\ unop_of k = None.
-Proof. intros k H. destruct k; try discriminate; split; reflexivity. Qed.
+Lemma good_head_varname : forall k, is_varname k = true -> is_distinct k = false ->
+  good_head k = true /\ unop_of k = None.
+Proof. intros k H D. destruct k; try discriminate; split; reflexivity. Qed.
+
+Lemma var_ok_parts : forall x, var_ok x = true ->
+  is_varname (word_kind (runes_of x)) = true /\ is_distinct (word_kind (runes_of x)) = false.
+Proof.
+  intros x H. unfold var_ok in H. apply andb_prop in H. destruct H as [H1 H2].
+  split; [exact H1|]. apply Bool.negb_true_iff in H2. exact H2.
+Qed.
 
 Lemma wrap_cons : forall b ts, ts <> [] ->
   exists k t r, wrap b ts = (k, t) :: r /\
@@ -528,6 +661,16 @@ Proof.
   - destruct ts as [|[k t] r]; [congruence|]. exists k, t, r. repeat split; try discriminate.
     intros _. exists r. reflexivity.
 Qed.
+
+Lemma range_op_printable : forall a, range_op a = true -> printable a = true /\ level a = 12.
+Proof.
+  intros a H. destruct a; simpl in H; try discriminate; split; try exact H; try reflexivity.
+  cbn [level]. unfold int_ok in H. apply andb_prop in H. destruct H as [H _]. apply Z.leb_le in H.
+  replace (z <? 0)%Z with false by (symmetry; apply Z.ltb_ge; lia). reflexivity.
+Qed.
+
+Lemma member_src_level : forall s, member_src s = true -> level s = 12.
+Proof. intros s H. destruct s; try discriminate; reflexivity. Qed.
 
 Section RoundTrip.
   Variable extra : expr -> bool.
@@ -563,7 +706,8 @@ Section RoundTrip.
       cbn [body]. rewrite E. reflexivity.
     - (* EStr *) eexists _, _, _. repeat split; reflexivity.
     - (* EArr *) eexists _, _, _. repeat split; reflexivity.
-    - (* EVar *) unfold var_ok in P. destruct (good_head_varname _ P) as [G U].
+    - (* EObj *) eexists _, _, _. repeat split; reflexivity.
+    - (* EVar *) destruct (var_ok_parts _ P) as [Pv Pd]. destruct (good_head_varname _ Pv Pd) as [G U].
       exists (word_kind (runes_of x)), x, []. repeat split; auto.
     - (* EParam *) eexists _, _, _. repeat split; reflexivity.
     - (* EUn *) destruct o; eexists _, _, _; (repeat split; try reflexivity; simpl; lia).
@@ -620,6 +764,19 @@ Section RoundTrip.
         exists k, t, r. repeat split; auto; intros; try apply U; simpl in *; lia.
       + destruct (head_of_left 11 e1 (math_tok MMod :: wrap (needsx 12 e2) (bodyx e2)) 11 Ha (le_n _)) as (k & t & r & E & G & U).
         exists k, t, r. repeat split; auto; intros; try apply U; simpl in *; lia.
+    - (* ERange *) apply andb_prop in P; destruct P as [P1 P2].
+      destruct (range_op_printable e1 P1) as [Pp Pl].
+      destruct (IHe1 Pp) as (k & t & r & Hb & Hg & Hu).
+      exists k, t, (r ++ tk KRange ".." :: bodyx e2). repeat split; auto.
+      + cbn [body]. rewrite Hb. reflexivity.
+      + intros _. apply Hu. lia.
+    - (* EMember *) apply andb_prop in P; destruct P as [P Pg]. apply andb_prop in P; destruct P as [P Pn].
+      apply andb_prop in P; destruct P as [Ps Pp].
+      destruct (IHe Pp) as (k & t & r & Hb & Hg & Hu).
+      pose proof (member_src_level e Ps) as Hl.
+      eexists k, t, _. repeat split; auto.
+      + cbn [body]. rewrite Hb. reflexivity.
+      + intros _. apply Hu. lia.
     - (* ECall *) apply andb_prop in P; destruct P as [P1 P2].
       unfold call_ok in P1. apply andb_prop in P1. destruct P1 as [Pi _].
       exists (word_kind (runes_of f)), f, (LP :: (fix go (l : list expr) : toks :=
@@ -632,6 +789,7 @@ Section RoundTrip.
       + destruct (word_kind (runes_of f)); try discriminate; reflexivity.
       + intros _. destruct (word_kind (runes_of f)); try discriminate; reflexivity.
     - (* ESuppress *) eexists _, _, _. repeat split; reflexivity.
+    - (* ESub *) eexists _, _, _. repeat split; reflexivity.
   Qed.
 End RoundTrip.
 
@@ -818,13 +976,13 @@ Section RT3.
   Lemma good_var : forall x, var_ok x = true -> GoodAt (EVar x).
   Proof.
     intros x P. apply (leaf_good (EVar x) [word_tok x]); try reflexivity.
-    - unfold word_tok, not_unop. apply good_head_varname. exact P.
-    - intros. cbn [app]. unfold word_tok. apply primary_var; assumption.
+    - unfold word_tok, not_unop. destruct (var_ok_parts _ P) as [Pv Pd]. apply good_head_varname; assumption.
+    - intros. cbn [app]. unfold word_tok. apply primary_var; [apply (var_ok_parts _ P)|assumption].
   Qed.
   Lemma good_param : forall x, var_ok x = true -> GoodAt (EParam x).
   Proof.
     intros x P. apply (leaf_good (EParam x) [tk KParam "@"; word_tok x]); try reflexivity.
-    intros. cbn [app]. unfold word_tok, tk. apply primary_param; assumption.
+    intros. cbn [app]. unfold word_tok, tk. apply primary_param; [apply (var_ok_parts _ P)|assumption].
   Qed.
 End RT3.
 
@@ -1294,12 +1452,12 @@ Section RT7.
   Qed.
 
   (* the call itself, whatever follows *)
-  Lemma call_parsed : forall fn args rest f,
-    call_ok fn = true -> all_ok args -> 64 * sum_size args + 16 <= f -> List.length args < f ->
-    mapr (ECall (upper_name fn)) (parse_seq (parse_at ch f) f is_rparen (pr_list extra args ++ RP :: rest))
+  Lemma call_parsed : forall fn args rest f g,
+    call_ok fn = true -> all_ok args -> 64 * sum_size args + 16 <= f -> List.length args < g ->
+    mapr (ECall (upper_name fn)) (parse_seq (parse_at ch f) g is_rparen (pr_list extra args ++ RP :: rest))
     = POk (ECall fn args) rest.
   Proof.
-    intros fn args rest f Hc Hall Hf Hlen.
+    intros fn args rest f g Hc Hall Hf Hlen.
     destruct (call_parts fn Hc) as [_ Hu].
     unfold RP, tk. rewrite (seq_good extra n IH args Hall is_rparen KRParen (bs ")") rest); try reflexivity; try lia.
     - cbn [mapr]. rewrite Hu. reflexivity.
@@ -1322,7 +1480,7 @@ Section RT7.
     apply from_primary; try lia.
     - unfold word_tok, LP, RP, tk. rewrite Hk. cbn [app]. rewrite primary_call.
       rewrite <- app_assoc. cbn [app].
-      pose proof (call_parsed fn args rest (S (f + lv - 14)) Hc Hall) as Hp.
+      pose proof (call_parsed fn args rest (S (f + lv - 14)) (S (f + lv - 14)) Hc Hall) as Hp.
       unfold RP, tk in Hp. rewrite Hp by lia. rewrite bindr_ok.
       unfold after_call. rewrite starts_path_none by exact Hn.
       apply postfix_q_keep with (B := B); exact Hq.
@@ -1386,7 +1544,7 @@ Section RT8.
     apply (from_primary (S f) false 1); try lia.
     - rewrite body_call. unfold word_tok, LP, RP, tk. rewrite Hk. cbn [app]. rewrite primary_call.
       rewrite <- app_assoc. cbn [app].
-      pose proof (call_parsed extra n IH fn args ((KQuestion, bs "?") :: (KRParen, bs ")") :: rest) (S f) Hc Hall) as Hp.
+      pose proof (call_parsed extra n IH fn args ((KQuestion, bs "?") :: (KRParen, bs ")") :: rest) (S f) (S f) Hc Hall) as Hp.
       unfold RP, tk in Hp.
       match goal with |- bindr ?X _ = _ =>
         replace X with (POk (ECall fn args) ((KQuestion, bs "?") :: (KRParen, bs ")") :: rest))
@@ -1432,11 +1590,1383 @@ Section RT8.
   Qed.
 End RT8.
 
-(* ------------------------------------------------ the theorem *)
-Theorem good_all : forall extra n e, size e <= n -> printable e = true -> GoodAt extra e.
+(* ------------------------------------------------ ranges *)
+Lemma call_start_no2 : forall k t r,
+  k <> KNsSeg -> hd_kind r <> Some KLParen -> is_call_start ((k, t) :: r) = false.
 Proof.
-  intros extra. induction n as [|n IHn]; intros e Hs P.
-  { pose proof (size_pos e). lia. }
+  intros k t r Hk Hr. unfold is_call_start.
+  destruct k; try congruence; destruct r as [|[k2 t2] r2]; try reflexivity;
+    destruct k2; try reflexivity; simpl in Hr; congruence.
+Qed.
+
+Lemma int_ok_parts : forall z, int_ok z = true ->
+  (z <? 0)%Z = false /\ int_value (digits (Z.to_N z)) = Some z.
+Proof.
+  intros z P. unfold int_ok in P. apply andb_prop in P. destruct P as [P0 P1].
+  apply Z.leb_le in P0. split; [apply Z.ltb_ge; lia|].
+  destruct (int_value (digits (Z.to_N z))) as [z'|]; [|discriminate].
+  apply Z.eqb_eq in P1. congruence.
+Qed.
+
+Section Range.
+  Variable extra : expr -> bool.
+  Local Notation bodyx := (body extra).
+
+  Lemma range_rhs_ok : forall a b rest, range_op b = true ->
+    range_rhs a (bodyx b ++ rest) = POk (ERange a b) rest.
+  Proof.
+    intros a b rest H. destruct b; simpl in H; try discriminate.
+    - destruct (int_ok_parts z H) as [E V]. cbn [body]. rewrite E. cbn [app range_rhs]. rewrite V. reflexivity.
+    - destruct (var_ok_parts x H) as [Pv _]. cbn [body app]. unfold word_tok.
+      destruct (word_kind (runes_of x)); try discriminate; reflexivity.
+    - destruct (var_ok_parts x H) as [Pv _]. cbn [body app]. unfold word_tok, tk. cbn [range_rhs].
+      rewrite Pv. reflexivity.
+  Qed.
+
+  Lemma primary_range : forall pe tb g a b rest, range_op a = true -> range_op b = true ->
+    primary ch pe tb g (bodyx a ++ tk KRange ".." :: bodyx b ++ rest) = POk (ERange a b) rest.
+  Proof.
+    intros pe tb g a b rest Ha Hb.
+    destruct a; simpl in Ha; try discriminate.
+    + destruct (int_ok_parts z Ha) as [E V]. cbn [body]. rewrite E. cbn [app]. unfold tk, primary.
+      rewrite call_start_no2 by (cbn; congruence). rewrite V. apply range_rhs_ok. exact Hb.
+    + destruct (var_ok_parts x Ha) as [Pv _]. cbn [body app]. unfold word_tok, tk, primary.
+      rewrite call_start_no2 by (try (apply varname_not_ns; exact Pv); cbn; congruence).
+      destruct (word_kind (runes_of x)); try discriminate; apply range_rhs_ok; exact Hb.
+    + destruct (var_ok_parts x Ha) as [Pv _]. cbn [body app]. unfold word_tok, tk, primary.
+      assert (E : forall r, is_call_start ((KParam, bs "@") :: (word_kind (runes_of x), x) :: r) = false).
+      { intros r. unfold is_call_start. destruct (word_kind (runes_of x)); try discriminate; reflexivity. }
+      rewrite E. rewrite Pv. apply range_rhs_ok. exact Hb.
+  Qed.
+
+  Lemma good_range : forall a b, range_op a = true -> range_op b = true -> GoodAt extra (ERange a b).
+  Proof.
+    intros a b Ha Hb.
+    apply (leaf_good extra (ERange a b) (bodyx a ++ tk KRange ".." :: bodyx b)); try reflexivity.
+    - destruct a; simpl in Ha; try discriminate.
+      + destruct (int_ok_parts z Ha) as [E _]. cbn [body]. rewrite E. reflexivity.
+      + destruct (var_ok_parts x Ha) as [Pv Pd]. cbn [body app]. unfold word_tok, not_unop.
+        apply (good_head_varname _ Pv Pd).
+      + reflexivity.
+    - intros pe tb g rest Hn. rewrite <- app_assoc. cbn [app]. apply primary_range; assumption.
+  Qed.
+End Range.
+
+(* ------------------------------------------------ member paths, objects *)
+Section Segs.
+  Variable extra : expr -> bool.
+  Fixpoint pr_segs (l : list seg) : toks :=
+    match l with
+    | [] => []
+    | x :: r => pr_seg extra x ++ pr_segs r
+    end.
+  Fixpoint pr_props (l : list prop) : toks :=
+    match l with
+    | [] => []
+    | [x] => pr_prop extra x
+    | x :: r => pr_prop extra x ++ COMMA :: pr_props r
+    end.
+End Segs.
+
+Lemma body_member : forall extra s p, body extra (EMember s p) = body extra s ++ pr_segs extra p.
+Proof. reflexivity. Qed.
+Lemma body_obj : forall extra ps,
+  body extra (EObj ps) = tk KLBrace "{" :: pr_props extra ps ++ [tk KRBrace "}"].
+Proof. reflexivity. Qed.
+
+Lemma kw_lookup_in : forall tbl u, kw_lookup tbl u = KIdent \/ In (kw_lookup tbl u) (map snd tbl).
+Proof.
+  induction tbl as [|[k v] tbl IH]; intros u; [left; reflexivity|].
+  cbn [kw_lookup map snd]. destruct (bytes_eqb k u).
+  - right. left. reflexivity.
+  - destruct (IH u) as [H|H]; [left; exact H|right; right; exact H].
+Qed.
+
+Lemma is_word_kinds : forall w, is_word (word_kind w) = true.
+Proof.
+  intros w. unfold word_kind. destruct (kw_lookup_in keywords (map up w)) as [H|H].
+  - rewrite H. reflexivity.
+  - assert (A : forallb is_word (map snd keywords) = true) by reflexivity.
+    rewrite forallb_forall in A. apply A. exact H.
+Qed.
+
+Lemma prop_name_word : forall k t r, is_word k = true -> prop_name ((k, t) :: r) = POk (EStr t) r.
+Proof. intros k t r H. destruct k; try discriminate; reflexivity. Qed.
+
+Lemma path_dot : forall pe g d k t r, is_word k = true ->
+  parse_path pe (S g) ((KDot, d) :: (k, t) :: r) = mapr (cons (Seg false (EStr t))) (parse_path pe g r).
+Proof. intros. cbn [parse_path]. rewrite prop_name_word by assumption. reflexivity. Qed.
+Lemma path_qdot : forall pe g q d k t r, is_word k = true ->
+  parse_path pe (S g) ((KQuestion, q) :: (KDot, d) :: (k, t) :: r)
+  = mapr (cons (Seg true (EStr t))) (parse_path pe g r).
+Proof. intros pe g q d k t r H. destruct k; try discriminate; reflexivity. Qed.
+Lemma path_brack : forall pe g b r,
+  parse_path pe (S g) ((KLBrack, b) :: r)
+  = bind_tok (pe false 1 r) is_rbrack (fun e r' => mapr (cons (Seg false e)) (parse_path pe g r')).
+Proof. reflexivity. Qed.
+Lemma path_qbrack : forall pe g q d b r,
+  parse_path pe (S g) ((KQuestion, q) :: (KDot, d) :: (KLBrack, b) :: r)
+  = bind_tok (pe false 1 r) is_rbrack (fun e r' => mapr (cons (Seg true e)) (parse_path pe g r')).
+Proof. reflexivity. Qed.
+
+Lemma estr_dec : forall e, (exists nm, e = EStr nm) \/ (forall nm, e <> EStr nm).
+Proof. destruct e; try (right; intros nm H; discriminate). left. eauto. Qed.
+Lemma eparam_dec : forall e, (exists x, e = EParam x) \/ (forall x, e <> EParam x).
+Proof. destruct e; try (right; intros nm H; discriminate). left. eauto. Qed.
+
+Lemma pr_seg_other : forall extra o e, (forall nm, e <> EStr nm) ->
+  pr_seg extra (Seg o e)
+  = (if o then [tk KQuestion "?"; tk KDot "."] else [])
+    ++ tk KLBrack "[" :: pr extra 1 e ++ [tk KRBrack "]"]
+  /\ printable_seg (Seg o e) = printable e.
+Proof. intros extra o e H. destruct e; try (split; reflexivity). exfalso. apply (H s). reflexivity. Qed.
+
+Lemma pr_prop_computed : forall extra k e, (forall x, k <> EParam x) ->
+  pr_prop extra (PComputed k e)
+  = tk KLBrack "[" :: pr extra 1 k ++ tk KRBrack "]" :: tk KColon ":" :: pr extra 1 e.
+Proof. intros extra k e H. destruct k; try reflexivity. exfalso. apply (H x). reflexivity. Qed.
+
+Lemma after_name_path : forall pe g a R, starts_path R = true -> after_name pe g a R = with_path pe g a R.
+Proof.
+  intros pe g a R H. unfold after_name. destruct R as [|[k t] r]; [reflexivity|].
+  destruct k; try reflexivity. discriminate.
+Qed.
+
+Lemma starts_path_hd : forall R, starts_path R = true -> hd_kind R <> Some KLParen.
+Proof. intros R H. destruct R as [|[k t] r]; [discriminate|]. destruct k; try discriminate; simpl; congruence. Qed.
+
+Definition props_cont (pe : bool -> nat -> toks -> pres expr) (g : nat) (p : prop) (r : toks)
+  : pres (list prop) :=
+  match r with
+  | (KComma, _) :: r' => mapr (cons p) (parse_props pe g r')
+  | (KRBrace, _) :: r' => POk [p] r'
+  | _ => PFail
+  end.
+
+Lemma props_word : forall pe g k t c r, is_word k = true ->
+  parse_props pe (S g) ((k, t) :: (KColon, c) :: r)
+  = bindr (pe false 1 r) (fun v r' => props_cont pe g (PNamed t v) r').
+Proof. intros pe g k t c r H. destruct k; try discriminate; reflexivity. Qed.
+Lemma props_str : forall pe g t c r,
+  parse_props pe (S g) ((KString, t) :: (KColon, c) :: r)
+  = bindr (pe false 1 r) (fun v r' => props_cont pe g (PNamed (str_inner t) v) r').
+Proof. reflexivity. Qed.
+Lemma props_param : forall pe g a k t c r, is_varname k = true ->
+  parse_props pe (S g) ((KParam, a) :: (k, t) :: (KColon, c) :: r)
+  = bindr (pe false 1 r) (fun v r' => props_cont pe g (PComputed (EParam t) v) r').
+Proof. intros pe g a k t c r H. destruct k; try discriminate; reflexivity. Qed.
+Lemma props_comp : forall pe g b r,
+  parse_props pe (S g) ((KLBrack, b) :: r)
+  = bind_tok (pe false 1 r) is_rbrack (fun k r1 =>
+      match r1 with
+      | (KColon, _) :: r' => bindr (pe false 1 r') (fun v r'' => props_cont pe g (PComputed k v) r'')
+      | _ => PFail
+      end).
+Proof. reflexivity. Qed.
+Lemma props_short : forall pe g k t kn tn r, is_varname k = true -> (kn = KComma \/ kn = KRBrace) ->
+  parse_props pe (S g) ((k, t) :: (kn, tn) :: r) = props_cont pe g (PShort t) ((kn, tn) :: r).
+Proof. intros pe g k t kn tn r H [E|E]; subst; destruct k; try discriminate; reflexivity. Qed.
+
+Lemma primary_lbrace : forall pe tb g t x,
+  primary ch pe tb g ((KLBrace, t) :: x) =
+  bindr (parse_props pe g x) (fun ps r' => with_path pe g (EObj ps) r').
+Proof.
+  intros. unfold primary.
+  assert (E : is_call_start ((KLBrace, t) :: x) = false).
+  { unfold is_call_start. destruct x as [|[k2 t2] r2]; [reflexivity|]. destruct k2; reflexivity. }
+  rewrite E. reflexivity.
+Qed.
+
+Section RT9.
+  Variable extra : expr -> bool.
+  Local Notation bodyx := (body extra).
+  Local Notation prx := (pr extra).
+  Local Notation GoodAt := (GoodAt extra).
+
+  Variable n : nat.
+  Hypothesis IH : forall e, size e <= n -> printable e = true -> GoodAt e.
+
+  Definition segs_ok (p : list seg) : Prop :=
+    forall s, In s p -> size_seg s <= n /\ printable_seg s = true.
+
+  Lemma path_good : forall p, segs_ok p ->
+    forall rest f g, no_postfix rest -> 64 * sum_by size_seg p + 80 <= f -> List.length p < g ->
+    parse_path (parse_at ch f) g (pr_segs extra p ++ rest) = POk p rest.
+  Proof.
+    induction p as [|[o e] p IHp]; intros Hok rest f g Hn Hf Hg.
+    - destruct g; [simpl in Hg; lia|]. apply path_none. exact Hn.
+    - destruct g; [simpl in Hg; lia|].
+      destruct (Hok (Seg o e) (or_introl eq_refl)) as [Hs Hp]. cbn [size_seg] in Hs.
+      assert (IHt : parse_path (parse_at ch f) g (pr_segs extra p ++ rest) = POk p rest).
+      { apply IHp; auto.
+        - intros s Hin. apply Hok. right. exact Hin.
+        - unfold sum_by in *. simpl in Hf. lia.
+        - simpl in Hg. lia. }
+      assert (Hcl : forall t r, ctx_ok false 0 1 ((KRBrack, t) :: r)) by (intros; apply ctx_closer; reflexivity).
+      cbn [pr_segs]. rewrite <- app_assoc.
+      destruct (estr_dec e) as [[nm ->]|Hne].
+      + cbn [pr_seg printable_seg] in *. destruct (is_word_text nm) eqn:W.
+        * destruct o; cbn [app]; unfold tk, word_tok;
+            [rewrite path_qdot by apply is_word_kinds|rewrite path_dot by apply is_word_kinds];
+            rewrite IHt; reflexivity.
+        * simpl in Hp.
+          assert (G : forall r, parse_at ch f false 1 (quote_tok nm :: (KRBrack, bs "]") :: r)
+                                = POk (EStr nm) ((KRBrack, bs "]") :: r)).
+          { intros r. apply (good_str extra nm Hp false 1 ((KRBrack, bs "]") :: r) 0 f); auto; try discriminate.
+            - cbn. lia.
+            - unfold need. cbn [size]. unfold sum_by in Hf. lia. }
+          destruct o; cbn [app]; unfold tk;
+            [rewrite path_qbrack|rewrite path_brack]; rewrite G; cbn [bind_tok is_rbrack];
+            rewrite IHt; reflexivity.
+      + destruct (pr_seg_other extra o e Hne) as [Epr Epp]. rewrite Epr. rewrite Epp in Hp.
+        assert (G : forall r, parse_at ch f false 1 (prx 1 e ++ (KRBrack, bs "]") :: r)
+                              = POk e ((KRBrack, bs "]") :: r)).
+        { intros r. apply (goodpr_of_good extra e Hp (IH e ltac:(lia) Hp) false 1 1 _ 0 f); auto; try discriminate; try lia.
+          unfold need. unfold sum_by in Hf. simpl in Hf. lia. }
+        destruct o; cbn [app]; unfold tk; rewrite <- app_assoc; cbn [app];
+          [rewrite path_qbrack|rewrite path_brack]; rewrite G; cbn [bind_tok is_rbrack];
+          rewrite IHt; reflexivity.
+  Qed.
+
+  Lemma with_path_good : forall src p rest f g,
+    p <> [] -> parse_path (parse_at ch f) g (pr_segs extra p ++ rest) = POk p rest ->
+    with_path (parse_at ch f) g src (pr_segs extra p ++ rest) = POk (EMember src p) rest.
+  Proof. intros src p rest f g Hne H. unfold with_path. rewrite H. destruct p; [congruence|reflexivity]. Qed.
+
+  Lemma segs_start : forall p rest, p <> [] -> starts_path (pr_segs extra p ++ rest) = true.
+  Proof.
+    intros p rest Hne. destruct p as [|[o e] p]; [congruence|].
+    cbn [pr_segs]. rewrite <- app_assoc.
+    destruct (estr_dec e) as [[nm ->]|H].
+    - cbn [pr_seg]. destruct (is_word_text nm), o; reflexivity.
+    - destruct (pr_seg_other extra o e H) as [-> _]. destruct o; reflexivity.
+  Qed.
+End RT9.
+
+Section RT10.
+  Variable extra : expr -> bool.
+  Local Notation bodyx := (body extra).
+  Local Notation prx := (pr extra).
+  Local Notation GoodAt := (GoodAt extra).
+
+  Variable n : nat.
+  Hypothesis IH : forall e, size e <= n -> printable e = true -> GoodAt e.
+
+  Definition props_ok (ps : list prop) : Prop :=
+    forall p, In p ps -> size_prop p <= n /\ printable_prop p = true.
+  Definition closes (tl : toks) : Prop :=
+    exists kn tn r, tl = (kn, tn) :: r /\ (kn = KComma \/ kn = KRBrace).
+
+  Lemma closes_ctx : forall tl, closes tl -> ctx_ok false 0 1 tl.
+  Proof. intros tl (kn & tn & r & -> & [->| ->]); apply ctx_closer; reflexivity. Qed.
+
+  Lemma prop_one : forall p tl f g,
+    size_prop p <= n -> printable_prop p = true -> closes tl -> 64 * size_prop p + 16 <= f ->
+    parse_props (parse_at ch f) (S g) (pr_prop extra p ++ tl) = props_cont (parse_at ch f) g p tl.
+  Proof.
+    intros p tl f g Hs Hp Hc Hf.
+    assert (Hv : forall e, size e <= n -> printable e = true -> 64 * size e + 16 <= f ->
+                 parse_at ch f false 1 (wrap (needs extra 1 e) (bodyx e) ++ tl) = POk e tl).
+    { intros e He Pe Hfe. change (wrap (needs extra 1 e) (bodyx e)) with (prx 1 e).
+      apply (goodpr_of_good extra e Pe (IH e He Pe) false 1 1 tl 0 f); auto; try discriminate; try lia.
+      - apply closes_ctx. exact Hc.
+      - unfold need. lia. }
+    destruct p as [k e|k e|x]; cbn [size_prop printable_prop] in *.
+    - (* PNamed *) cbn [pr_prop app]. destruct (is_word_text k); unfold tk.
+      + unfold word_tok. rewrite props_word by apply is_word_kinds.
+        rewrite Hv by (auto; lia). reflexivity.
+      + unfold quote_tok. rewrite props_str. rewrite Hv by (auto; lia).
+        rewrite bindr_ok. rewrite str_inner_quote. reflexivity.
+    - (* PComputed *) apply andb_prop in Hp. destruct Hp as [Pk Pe].
+      destruct (eparam_dec k) as [[x ->]|Hne].
+      + cbn [pr_prop app]. unfold tk, word_tok. cbn [printable] in Pk.
+        rewrite props_param by (apply (var_ok_parts x Pk)).
+        rewrite Hv by (auto; lia). reflexivity.
+      + rewrite (pr_prop_computed extra k e Hne). unfold pr. cbn [app]. unfold tk. rewrite props_comp.
+        rewrite <- app_assoc. cbn [app].
+        change (wrap (needs extra 1 k) (bodyx k)) with (prx 1 k).
+        rewrite (goodpr_of_good extra k Pk (IH k ltac:(lia) Pk) false 1 1 _ 0 f); auto; try discriminate; try lia.
+        * cbn [bind_tok is_rbrack]. rewrite Hv by (auto; lia). reflexivity.
+        * apply ctx_closer. reflexivity.
+        * unfold need. lia.
+    - (* PShort *) cbn [pr_prop app]. unfold word_tok.
+      destruct Hc as (kn & tn & r & -> & Hk).
+      apply props_short; [apply (var_ok_parts x Hp)|exact Hk].
+  Qed.
+
+  Lemma props_good : forall ps, props_ok ps ->
+    forall rest f g, 64 * sum_by size_prop ps + 16 <= f -> List.length ps < g ->
+    parse_props (parse_at ch f) g (pr_props extra ps ++ tk KRBrace "}" :: rest) = POk ps rest.
+  Proof.
+    induction ps as [|p ps IHps]; intros Hok rest f g Hf Hg.
+    - destruct g; [simpl in Hg; lia|]. reflexivity.
+    - destruct g; [simpl in Hg; lia|].
+      destruct (Hok p (or_introl eq_refl)) as [Hs Hp].
+      destruct ps as [|q ps'].
+      + cbn [pr_props]. rewrite prop_one; auto.
+        * exists KRBrace, (bs "}"), rest. split; [reflexivity|right; reflexivity].
+        * unfold sum_by in Hf. simpl in Hf. lia.
+      + change (pr_props extra (p :: q :: ps')) with (pr_prop extra p ++ COMMA :: pr_props extra (q :: ps')).
+        rewrite <- app_assoc. cbn [app]. rewrite prop_one; auto.
+        * unfold COMMA, tk. cbn [props_cont]. fold (tk KRBrace "}").
+          rewrite IHps; auto.
+          -- intros z Hz. apply Hok. right. exact Hz.
+          -- unfold sum_by in *. simpl in *. lia.
+          -- simpl in *. lia.
+        * exists KComma, (bs ","), (pr_props extra (q :: ps') ++ tk KRBrace "}" :: rest).
+          split; [reflexivity|left; reflexivity].
+        * unfold sum_by in Hf. simpl in Hf. lia.
+  Qed.
+
+  Lemma size_prop_pos : forall p, 1 <= size_prop p.
+  Proof. destruct p; simpl; lia. Qed.
+  Lemma len_le_props : forall ps, List.length ps <= sum_by size_prop ps.
+  Proof.
+    induction ps as [|x ps IHps]; [simpl; lia|]. unfold sum_by in *. simpl. pose proof (size_prop_pos x). lia.
+  Qed.
+  Lemma len_le_segs : forall p, List.length p <= sum_by size_seg p.
+  Proof.
+    induction p as [|[o e] p IHp]; [simpl; lia|]. unfold sum_by in *. simpl. pose proof (size_pos e). lia.
+  Qed.
+
+  (* an object literal, up to the member path that may follow *)
+  Lemma obj_pre : forall ps tb f g R,
+    props_ok ps -> 64 * sum_by size_prop ps + 16 <= f -> List.length ps < g ->
+    primary ch (parse_at ch f) tb g (bodyx (EObj ps) ++ R) = with_path (parse_at ch f) g (EObj ps) R.
+  Proof.
+    intros ps tb f g R Hok Hf Hl. rewrite body_obj. cbn [app]. unfold tk at 1. rewrite primary_lbrace.
+    rewrite <- app_assoc. cbn [app]. rewrite props_good; auto.
+  Qed.
+
+  Lemma arr_pre : forall es tb f g R,
+    all_ok n es -> 64 * sum_size es + 16 <= f -> List.length es < g ->
+    primary ch (parse_at ch f) tb g (bodyx (EArr es) ++ R) = with_path (parse_at ch f) g (EArr es) R.
+  Proof.
+    intros es tb f g R Hall Hf Hl. rewrite body_arr. cbn [app]. unfold tk at 1. rewrite primary_lbrack.
+    rewrite <- app_assoc. cbn [app]. unfold tk.
+    rewrite (seq_good extra n IH es Hall is_rbrack KRBrack (bs "]") R); try reflexivity; try lia.
+    intros k Hg. apply (good_head_facts k Hg).
+  Qed.
+
+  Lemma call_pre : forall fn args tb f g R,
+    call_ok fn = true -> all_ok n args -> 64 * sum_size args + 16 <= f -> List.length args < g ->
+    primary ch (parse_at ch f) tb g (bodyx (ECall fn args) ++ R)
+    = after_call ch (parse_at ch f) tb g (ECall fn args) R.
+  Proof.
+    intros fn args tb f g R Hc Hall Hf Hl.
+    destruct (call_parts fn Hc) as [Hk _].
+    rewrite body_call. unfold word_tok, LP, RP, tk. rewrite Hk. cbn [app]. rewrite primary_call.
+    rewrite <- app_assoc. cbn [app].
+    pose proof (call_parsed extra n IH fn args R f g Hc Hall Hf Hl) as Hp.
+    unfold RP, tk in Hp.
+    match goal with |- bindr ?X _ = _ =>
+      replace X with (POk (ECall fn args) R) by (symmetry; apply Hp) end.
+    reflexivity.
+  Qed.
+
+  Lemma var_pre : forall pe x tb g R, var_ok x = true -> starts_path R = true ->
+    primary ch pe tb g (bodyx (EVar x) ++ R) = with_path pe g (EVar x) R.
+  Proof.
+    intros pe x tb g R P HR. destruct (var_ok_parts x P) as [Pv _].
+    cbn [body app]. unfold word_tok, primary.
+    rewrite call_start_no2 by (try (apply varname_not_ns; exact Pv); apply starts_path_hd; exact HR).
+    destruct (word_kind (runes_of x)); try discriminate; apply after_name_path; exact HR.
+  Qed.
+
+  Lemma param_pre : forall pe x tb g R, var_ok x = true -> starts_path R = true ->
+    primary ch pe tb g (bodyx (EParam x) ++ R) = with_path pe g (EParam x) R.
+  Proof.
+    intros pe x tb g R P HR. destruct (var_ok_parts x P) as [Pv _].
+    cbn [body app]. unfold word_tok, tk, primary.
+    destruct (word_kind (runes_of x)); try discriminate;
+      (cbn -[with_path after_name]; apply after_name_path; exact HR).
+  Qed.
+
+  Lemma good_obj : forall ps, props_ok ps -> GoodAt (EObj ps).
+  Proof.
+    intros ps Hok tb lv rest B f Hlv Htb [Hs [Hn Hq]] Hf.
+    unfold need in Hf. change (size (EObj ps)) with (S (sum_by size_prop ps)) in Hf. cbn [level] in Hlv.
+    pose proof (len_le_props ps).
+    replace f with (S (S (f + lv - 14)) + (12 - lv)) by lia.
+    apply from_primary; try lia.
+    - rewrite obj_pre; auto; try lia. apply with_path_none. exact Hn.
+    - exact Hs.
+    - intros _. reflexivity.
+  Qed.
+
+  Lemma good_member : forall s p,
+    member_src s = true -> size s <= n -> printable s = true -> p <> [] -> segs_ok n p ->
+    GoodAt (EMember s p).
+  Proof.
+    intros s p Hm Hss Ps Hne Hok tb lv rest B f Hlv Htb [Hs [Hn Hq]] Hf.
+    unfold need in Hf. rewrite (size_member s p Hne) in Hf.
+    cbn [level] in Hlv. pose proof (len_le_segs p) as Hlp. pose proof (size_pos s) as Hsp.
+    replace f with (S (S (f + lv - 14)) + (12 - lv)) by lia.
+    set (g := f + lv - 14).
+    assert (Hpath : parse_path (parse_at ch (S g)) (S g) (pr_segs extra p ++ rest) = POk p rest).
+    { apply (path_good extra n IH p Hok rest (S g) (S g)); auto; unfold g; lia. }
+    assert (HR : starts_path (pr_segs extra p ++ rest) = true) by (apply segs_start; exact Hne).
+    apply from_primary; try lia.
+    - rewrite body_member. rewrite <- app_assoc.
+      destruct s; try discriminate.
+      + (* EArr *) simpl in Ps. change (size (EArr es)) with (S (sum_size es)) in *.
+        pose proof (len_le_sum es).
+        rewrite arr_pre; try (unfold g; lia).
+        * apply with_path_good; assumption.
+        * apply all_ok_of; [exact Ps|lia].
+      + (* EObj *) simpl in Ps. change (size (EObj ps)) with (S (sum_by size_prop ps)) in *.
+        pose proof (len_le_props ps).
+        rewrite obj_pre; try (unfold g; lia).
+        * apply with_path_good; assumption.
+        * intros q Hq'. split.
+          -- assert (size_prop q <= sum_by size_prop ps).
+             { clear - Hq'. induction ps as [|y ps IHps]; [destruct Hq'|].
+               unfold sum_by in *. simpl. destruct Hq' as [->|Hq']; [lia|]. specialize (IHps Hq'). lia. }
+             lia.
+          -- rewrite forallb_forall in Ps. apply Ps. exact Hq'.
+      + (* EVar *) rewrite var_pre; auto. apply with_path_good; assumption.
+      + (* EParam *) rewrite param_pre; auto. apply with_path_good; assumption.
+      + (* ECall *) simpl in Ps. apply andb_prop in Ps. destruct Ps as [Pc Pa].
+        change (size (ECall f0 args)) with (S (sum_size args)) in *.
+        pose proof (len_le_sum args).
+        rewrite call_pre; auto; try (unfold g; lia).
+        * unfold after_call. rewrite HR. apply with_path_good; assumption.
+        * apply all_ok_of; [exact Pa|lia].
+    - exact Hs.
+    - intros _. destruct (body_hd_kind extra (EMember s p) rest) as (k & Hk & Hg & Hu).
+      { cbn [printable]. rewrite Hm, Ps. cbn [andb]. destruct p; [congruence|]. cbn [is_nil negb andb].
+        apply forallb_forall. intros x Hx. apply (Hok x Hx). }
+      apply (hd_not_unop _ k Hk). apply Hu. cbn [level]. lia.
+  Qed.
+
+  (* sub-queries: a loop in parentheses, given that loops read back *)
+  Definition for_tail (q : forq) : toks := tl (pr_for extra q).
+  Lemma pr_for_tail : forall q, pr_for extra q = tk KFor "FOR" :: for_tail q.
+  Proof. destruct q; reflexivity. Qed.
+
+  Definition GoodFor (q : forq) : Prop := forall rest f g,
+    ctx_ok false 0 1 rest -> 64 * size_for q + 16 <= f -> size_for q < g ->
+    parse_for (parse_at ch f) g (for_tail q ++ rest) = POk q rest.
+
+  Lemma good_sub : forall q, GoodFor q -> GoodAt (ESub q).
+  Proof.
+    intros q Gq tb lv rest B f Hlv Htb [Hs [Hn Hq]] Hf.
+    unfold need in Hf. cbn [size] in Hf. cbn [level] in Hlv.
+    replace f with (S (f + lv - 13) + (12 - lv)) by lia.
+    apply from_primary; try lia.
+    - cbn [body]. rewrite pr_for_tail. unfold LP, RP, tk. cbn [app]. rewrite <- app_assoc. cbn [app].
+      change (primary ch (parse_at ch (f + lv - 13)) tb (f + lv - 13)
+                ((KLParen, bs "(") :: (KFor, bs "FOR") :: for_tail q ++ (KRParen, bs ")") :: rest))
+        with (bind_tok (parse_for (parse_at ch (f + lv - 13)) (f + lv - 13) (for_tail q ++ (KRParen, bs ")") :: rest))
+                is_rparen (fun q' r' => postfix_q ch tb (ESub q') r')).
+      rewrite Gq; try lia.
+      + cbn [bind_tok is_rparen]. apply postfix_q_keep with (B := B). exact Hq.
+      + apply ctx_closer. reflexivity.
+    - exact Hs.
+    - intros _. reflexivity.
+  Qed.
+End RT10.
+
+(* ================================================== loops and programs *)
+Section ClauseToks.
+  Variable extra : expr -> bool.
+  Fixpoint pr_clauses (l : list fclause) : toks :=
+    match l with [] => [] | x :: r => pr_clause extra x ++ pr_clauses r end.
+  Fixpoint pr_sort (l : list (expr * bool)) : toks :=
+    match l with
+    | [] => []
+    | [(e, d)] => pr extra 1 e ++ (if d then [tk KSortDir "DESC"] else [])
+    | (e, d) :: r => pr extra 1 e ++ (if d then [tk KSortDir "DESC"] else []) ++ COMMA :: pr_sort r
+    end.
+  Fixpoint pr_groups (l : list (name * expr)) : toks :=
+    match l with
+    | [] => []
+    | [(x, e)] => word_tok x :: tk KAssign "=" :: pr extra 1 e
+    | (x, e) :: r => word_tok x :: tk KAssign "=" :: pr extra 1 e ++ COMMA :: pr_groups r
+    end.
+  Fixpoint pr_aggrs (l : list (name * name * list expr)) : toks :=
+    match l with
+    | [] => []
+    | (x, f, args) :: r =>
+        word_tok x :: tk KAssign "=" :: word_tok f :: LP :: pr_list extra args ++ RP ::
+        match r with [] => [] | _ => COMMA :: pr_aggrs r end
+    end.
+End ClauseToks.
+
+Lemma pr_for_in : forall extra v k s bd r,
+  pr_for extra (ForIn v k s bd r)
+  = tk KFor "FOR" :: word_tok v :: match k with Some k' => [COMMA; word_tok k'] | None => [] end
+    ++ tk KIn "IN" :: body extra s ++ pr_clauses extra bd ++ pr_ret extra r.
+Proof. reflexivity. Qed.
+Lemma pr_for_while : forall extra v d c bd r,
+  pr_for extra (ForWhile v d c bd r)
+  = tk KFor "FOR" :: word_tok v :: (if d then [tk KDo "DO"] else [])
+    ++ tk KWhile "WHILE" :: pr extra 1 c ++ pr_clauses extra bd ++ pr_ret extra r.
+Proof. reflexivity. Qed.
+Lemma pr_clause_sort : forall extra ks, pr_clause extra (CSort ks) = tk KSort "SORT" :: pr_sort extra ks.
+Proof. reflexivity. Qed.
+Lemma pr_clause_collect : forall extra gs t,
+  pr_clause extra (CCollect gs t) = tk KCollect "COLLECT" :: pr_groups extra gs ++ pr_ctail extra t.
+Proof. reflexivity. Qed.
+Lemma pr_ctail_aggr : forall extra ss,
+  pr_ctail extra (CTAggr ss) = tk KAggregate "AGGREGATE" :: pr_aggrs extra ss.
+Proof. reflexivity. Qed.
+
+(* what follows a clause: the next clause, a call statement, RETURN or FOR *)
+Definition cstart (k : kind) : bool :=
+  match k with
+  | KLet | KFilter | KSort | KLimit | KCollect | KReturn | KFor | KIdent => true
+  | _ => false
+  end.
+Definition cstarts (T : toks) : Prop := exists k t r, T = (k, t) :: r /\ cstart k = true.
+
+Lemma cstarts_ctx : forall T, cstarts T -> ctx_ok false 0 1 T.
+Proof.
+  intros T (k & t & r & -> & H).
+  destruct k; try discriminate; (split; [|split]; try exact I;
+    intros l _; destruct l as [|[|[|[|[|[|[|[|[|[|[|[|l]]]]]]]]]]]]; simpl; try reflexivity; try congruence; exact I).
+Qed.
+
+Lemma cstarts_facts : forall T, cstarts T ->
+  no_postfix T /\ starts_path T = false /\ hd_kind T <> Some KQuestion /\ hd_kind T <> Some KComma
+  /\ hd_kind T <> Some KRange /\ hd_kind T <> Some KLParen.
+Proof.
+  intros T (k & t & r & -> & H). destruct k; try discriminate; repeat split; simpl; congruence || exact I.
+Qed.
+
+Lemma good_head_starts : forall k k2, good_head k = true -> starts_expr k k2 = true.
+Proof. intros k k2 H. destruct k; try discriminate; reflexivity. Qed.
+Lemma good_head_not_distinct : forall k, good_head k = true -> k <> KDistinct.
+Proof. intros k H E. subst. discriminate. Qed.
+
+Lemma parse_return_plain : forall pe ts k,
+  hd_kind ts = Some k -> k <> KDistinct ->
+  parse_return pe ts = mapr (fun e => (false, e)) (pe false 1 ts).
+Proof.
+  intros pe ts k H Hk. unfold parse_return.
+  destruct ts as [|[k0 t0] r0]; [discriminate|]. simpl in H. inversion H; subst.
+  destruct k; try reflexivity. congruence.
+Qed.
+
+Lemma parse_return_distinct : forall pe d ts k,
+  hd_kind ts = Some k -> good_head k = true ->
+  parse_return pe ((KDistinct, d) :: ts) = mapr (fun e => (true, e)) (pe false 1 ts).
+Proof.
+  intros pe d ts k H G. destruct ts as [|[k0 t0] r0]; [discriminate|].
+  simpl in H. inversion H; subst. cbn [parse_return]. rewrite good_head_starts by exact G. reflexivity.
+Qed.
+
+Lemma call_stmt_plain : forall pe g ts c r,
+  parse_call pe g ts = POk c r -> hd_kind r <> Some KQuestion -> call_stmt pe g ts = POk c r.
+Proof.
+  intros pe g ts c r H Hq. unfold call_stmt. rewrite H.
+  destruct r as [|[k t] r']; [reflexivity|]. destruct k; try reflexivity. simpl in Hq. congruence.
+Qed.
+Lemma call_stmt_q : forall pe g ts c q r,
+  parse_call pe g ts = POk c ((KQuestion, q) :: r) -> call_stmt pe g ts = POk (ESuppress c) r.
+Proof. intros pe g ts c q r H. unfold call_stmt. rewrite H. reflexivity. Qed.
+
+(* operands of FOR ... IN and LIMIT *)
+Definition opfollow (R : toks) : Prop :=
+  no_postfix R /\ starts_path R = false /\ hd_kind R <> Some KQuestion
+  /\ hd_kind R <> Some KRange /\ hd_kind R <> Some KLParen.
+
+Lemma cstarts_opfollow : forall T, cstarts T -> opfollow T.
+Proof. intros T H. destruct (cstarts_facts T H) as (A & B & C & D & E & F). repeat split; assumption. Qed.
+Lemma comma_opfollow : forall t r, opfollow ((KComma, t) :: r).
+Proof. intros. repeat split; simpl; congruence || exact I. Qed.
+
+Lemma operand_call : forall pe g allow f t2 x,
+  parse_operand pe g allow ((KIdent, f) :: (KLParen, t2) :: x)
+  = bindr (mapr (ECall (upper_name f)) (parse_seq pe g is_rparen x)) (fun c r =>
+      if starts_path r then with_path pe g c r
+      else match r with
+           | (KQuestion, _) :: r' => POk (ESuppress c) r'
+           | _ => POk c r
+           end).
+Proof. reflexivity. Qed.
+
+(* for the other operand shapes parse_operand and primary do the same *)
+Lemma operand_eq_primary : forall extra pe g allow s R,
+  match s with
+  | EInt _ => allow = true
+  | EVar _ | EParam _ | EArr _ | EObj _ => True
+  | ERange _ _ => allow = false
+  | EMember (ECall _ _) _ => False
+  | EMember _ _ => True
+  | _ => False
+  end ->
+  printable s = true -> opfollow R ->
+  parse_operand pe g allow (body extra s ++ R) = primary ch pe false g (body extra s ++ R).
+Proof.
+  intros extra pe g allow s R Hs P (Hn & Hsp & Hq & Hr & Hl).
+  assert (Hint : forall z R', int_ok z = true ->
+            (allow = true \/ hd_kind R' = Some KRange) ->
+            parse_operand pe g allow (body extra (EInt z) ++ R') = primary ch pe false g (body extra (EInt z) ++ R')).
+  { intros z R' Pz Ha. destruct (int_ok_parts z Pz) as [E V]. cbn [body]. rewrite E. cbn [app].
+    unfold parse_operand, primary.
+    destruct R' as [|[k t] r].
+    - destruct Ha as [->|Ha]; [|discriminate]. cbn -[int_value digits range_rhs]. rewrite V. reflexivity.
+    - destruct Ha as [->|Ha].
+      + destruct k; cbn -[int_value digits range_rhs]; rewrite V; reflexivity.
+      + simpl in Ha. inversion Ha; subst. cbn -[int_value digits range_rhs]. rewrite V. reflexivity. }
+  assert (Hvar : forall x R', var_ok x = true -> hd_kind R' <> Some KLParen ->
+            parse_operand pe g allow (body extra (EVar x) ++ R') = primary ch pe false g (body extra (EVar x) ++ R')).
+  { intros x R' Px Hl'. destruct (var_ok_parts x Px) as [Pv _]. cbn [body app]. unfold word_tok, parse_operand, primary.
+    rewrite call_start_no2 by (try (apply varname_not_ns; exact Pv); exact Hl').
+    destruct (word_kind (runes_of x)); try discriminate; reflexivity. }
+  assert (Hpar : forall x R', var_ok x = true ->
+            parse_operand pe g allow (body extra (EParam x) ++ R') = primary ch pe false g (body extra (EParam x) ++ R')).
+  { intros x R' Px. destruct (var_ok_parts x Px) as [Pv _]. cbn [body app]. unfold word_tok, tk, parse_operand, primary.
+    destruct (word_kind (runes_of x)); try discriminate; reflexivity. }
+  assert (Harr : forall es R', parse_operand pe g allow (body extra (EArr es) ++ R') = primary ch pe false g (body extra (EArr es) ++ R')).
+  { intros es R'. rewrite body_arr. cbn [app]. unfold tk at 1 3. rewrite primary_lbrack.
+    unfold parse_operand.
+    assert (E : forall x, is_call_start ((KLBrack, bs "[") :: x) = false).
+    { intros x. unfold is_call_start. destruct x as [|[k2 t2] r2]; [reflexivity|]. destruct k2; reflexivity. }
+    rewrite E. reflexivity. }
+  assert (Hobj : forall ps R', parse_operand pe g allow (body extra (EObj ps) ++ R') = primary ch pe false g (body extra (EObj ps) ++ R')).
+  { intros ps R'. rewrite body_obj. cbn [app]. unfold tk at 1 3. rewrite primary_lbrace.
+    unfold parse_operand.
+    assert (E : forall x, is_call_start ((KLBrace, bs "{") :: x) = false).
+    { intros x. unfold is_call_start. destruct x as [|[k2 t2] r2]; [reflexivity|]. destruct k2; reflexivity. }
+    rewrite E. reflexivity. }
+  destruct s; try contradiction.
+  - (* EInt *) apply Hint; [exact P|left; exact Hs].
+  - apply Harr.
+  - apply Hobj.
+  - apply Hvar; [exact P|exact Hl].
+  - apply Hpar. exact P.
+  - (* ERange *) cbn [printable] in P. apply andb_prop in P. destruct P as [Pa Pb].
+    cbn [body]. rewrite <- app_assoc. cbn [app].
+    destruct s1; simpl in Pa; try discriminate.
+    + apply Hint; [exact Pa|right; reflexivity].
+    + apply Hvar; [exact Pa|simpl; congruence].
+    + apply Hpar. exact Pa.
+  - (* EMember *) cbn [printable] in P. apply andb_prop in P. destruct P as [P Pg]. apply andb_prop in P. destruct P as [P Pn].
+    apply andb_prop in P. destruct P as [Pm Ps].
+    rewrite body_member. rewrite <- app_assoc.
+    assert (HR : starts_path (pr_segs extra path ++ R) = true).
+    { apply segs_start. destruct path; [discriminate|congruence]. }
+    destruct s; try discriminate; try contradiction.
+    + apply Harr.
+    + apply Hobj.
+    + apply Hvar; [exact Ps|apply starts_path_hd; exact HR].
+    + apply Hpar. exact Ps.
+Qed.
+
+Section RTF.
+  Variable extra : expr -> bool.
+  Local Notation bodyx := (body extra).
+  Local Notation prx := (pr extra).
+  Local Notation GoodAt := (GoodAt extra).
+  Local Notation GoodFor := (GoodFor extra).
+
+  Variable n : nat.
+  Hypothesis IH : forall e, size e <= n -> printable e = true -> GoodAt e.
+  Hypothesis IHF : forall q, size_for q <= n -> printable_for q = true -> GoodFor q.
+
+  Lemma expr_at : forall e T f, size e <= n -> printable e = true -> ctx_ok false 0 1 T ->
+    64 * size e + 16 <= f -> parse_at ch f false 1 (prx 1 e ++ T) = POk e T.
+  Proof.
+    intros e T f He Pe Hc Hf.
+    apply (goodpr_of_good extra e Pe (IH e He Pe) false 1 1 T 0 f); auto; try discriminate; try lia.
+    unfold need. lia.
+  Qed.
+
+  Lemma sum_size_in : forall (es : list expr) x, In x es -> size x <= sum_size es.
+  Proof. intros es x H. apply size_in. exact H. Qed.
+
+  Lemma operand_good : forall (allow : bool) (s : expr) (R : toks) (f g : nat),
+    (if allow then limit_ok s else source_ok s) = true -> size s <= n -> printable s = true ->
+    opfollow R -> 64 * size s + 80 <= f -> size s < g ->
+    parse_operand (parse_at ch f) g allow (bodyx s ++ R) = POk s R.
+  Proof.
+    intros allow s R f g Hok Hs P HR Hf Hg.
+    pose proof HR as (Hn & Hsp & Hq & Hr & Hl).
+    destruct g as [|g']; [lia|].
+    destruct s; try (destruct allow; discriminate).
+    - (* EInt *) destruct allow; [|discriminate].
+      rewrite (operand_eq_primary extra) by (first [assumption | reflexivity | exact I | (destruct allow; exact I)]).
+      destruct (int_ok_parts z P) as [E V]. cbn [body]. rewrite E. cbn [app]. apply primary_int; assumption.
+    - (* EArr *) destruct allow; [discriminate|].
+      rewrite (operand_eq_primary extra) by (first [assumption | reflexivity | exact I | (destruct allow; exact I)]).
+      simpl in P. change (size (EArr es)) with (S (sum_size es)) in *. pose proof (len_le_sum es).
+      rewrite (arr_pre extra n IH); try lia.
+      + apply with_path_none. exact Hn.
+      + apply all_ok_of; [exact P|lia].
+    - (* EObj *) destruct allow; [discriminate|].
+      rewrite (operand_eq_primary extra) by (first [assumption | reflexivity | exact I | (destruct allow; exact I)]).
+      simpl in P. change (size (EObj ps)) with (S (sum_by size_prop ps)) in *. pose proof (len_le_props ps).
+      rewrite (obj_pre extra n IH); try lia.
+      + apply with_path_none. exact Hn.
+      + intros q Hq'. split.
+        * assert (size_prop q <= sum_by size_prop ps).
+          { clear - Hq'. induction ps as [|y ps IHps]; [destruct Hq'|].
+            unfold sum_by in *. simpl. destruct Hq' as [->|Hq']; [lia|]. specialize (IHps Hq'). lia. }
+          lia.
+        * rewrite forallb_forall in P. apply P. exact Hq'.
+    - (* EVar *) rewrite (operand_eq_primary extra) by (first [assumption | reflexivity | exact I | (destruct allow; exact I)]).
+      cbn [body app]. unfold word_tok. apply primary_var; [apply (var_ok_parts x P)|exact Hn].
+    - (* EParam *) rewrite (operand_eq_primary extra) by (first [assumption | reflexivity | exact I | (destruct allow; exact I)]).
+      cbn [body app]. unfold word_tok, tk. apply primary_param; [apply (var_ok_parts x P)|exact Hn].
+    - (* ERange *) destruct allow; [discriminate|].
+      rewrite (operand_eq_primary extra) by (first [assumption | reflexivity | exact I | (destruct allow; exact I)]).
+      cbn [printable] in P. apply andb_prop in P. destruct P as [Pa Pb].
+      cbn [body]. rewrite <- app_assoc. cbn [app]. apply primary_range; assumption.
+    - (* EMember *)
+      pose proof P as P0.
+      cbn [printable] in P. apply andb_prop in P. destruct P as [P Pg]. apply andb_prop in P. destruct P as [P Pn].
+      apply andb_prop in P. destruct P as [Pm Ps].
+      assert (Hne : path <> []) by (destruct path; [discriminate|congruence]).
+      rewrite (size_member s path Hne) in *.
+      pose proof (len_le_segs path) as Hlp. pose proof (size_pos s) as Hsp'.
+      assert (Hok' : segs_ok n path).
+      { intros x Hx. split.
+        - assert (size_seg x <= sum_by size_seg path).
+          { clear - Hx. induction path as [|y p IHp]; [destruct Hx|].
+            unfold sum_by in *. simpl. destruct Hx as [->|Hx]; [lia|]. specialize (IHp Hx). lia. }
+          lia.
+        - rewrite forallb_forall in Pg. apply Pg. exact Hx. }
+      assert (Hpath : parse_path (parse_at ch f) (S g') (pr_segs extra path ++ R) = POk path R).
+      { apply (path_good extra n IH path Hok' R f (S g')); auto; lia. }
+      assert (HRs : starts_path (pr_segs extra path ++ R) = true) by (apply segs_start; exact Hne).
+      destruct s; try discriminate.
+      + (* EArr *) rewrite (operand_eq_primary extra) by (first [assumption | reflexivity | exact I | (destruct allow; exact I)]).
+        rewrite body_member. rewrite <- app_assoc.
+        simpl in Ps. change (size (EArr es)) with (S (sum_size es)) in *. pose proof (len_le_sum es).
+        rewrite (arr_pre extra n IH); try lia.
+        * apply with_path_good; assumption.
+        * apply all_ok_of; [exact Ps|lia].
+      + (* EObj *) rewrite (operand_eq_primary extra) by (first [assumption | reflexivity | exact I | (destruct allow; exact I)]).
+        rewrite body_member. rewrite <- app_assoc.
+        simpl in Ps. change (size (EObj ps)) with (S (sum_by size_prop ps)) in *. pose proof (len_le_props ps).
+        rewrite (obj_pre extra n IH); try lia.
+        * apply with_path_good; assumption.
+        * intros q Hq'. split.
+          -- assert (size_prop q <= sum_by size_prop ps).
+             { clear - Hq'. induction ps as [|y ps IHps]; [destruct Hq'|].
+               unfold sum_by in *. simpl. destruct Hq' as [->|Hq']; [lia|]. specialize (IHps Hq'). lia. }
+             lia.
+          -- rewrite forallb_forall in Ps. apply Ps. exact Hq'.
+      + (* EVar *) rewrite (operand_eq_primary extra) by (first [assumption | reflexivity | exact I | (destruct allow; exact I)]).
+        rewrite body_member. rewrite <- app_assoc.
+        rewrite var_pre; auto. apply with_path_good; assumption.
+      + (* EParam *) rewrite (operand_eq_primary extra) by (first [assumption | reflexivity | exact I | (destruct allow; exact I)]).
+        rewrite body_member. rewrite <- app_assoc.
+        rewrite param_pre; auto. apply with_path_good; assumption.
+      + (* ECall *) rewrite body_member. rewrite <- app_assoc.
+        simpl in Ps. apply andb_prop in Ps. destruct Ps as [Pc Pa].
+        change (size (ECall f0 args)) with (S (sum_size args)) in *. pose proof (len_le_sum args).
+        destruct (call_parts f0 Pc) as [Hk _].
+        rewrite body_call. unfold word_tok, LP, RP, tk. rewrite Hk. cbn [app]. rewrite operand_call.
+        rewrite <- app_assoc. cbn [app].
+        pose proof (call_parsed extra n IH f0 args (pr_segs extra path ++ R) f (S g') Pc) as Hp.
+        unfold RP, tk in Hp.
+        match goal with |- bindr ?X _ = _ =>
+          replace X with (POk (ECall f0 args) (pr_segs extra path ++ R))
+            by (symmetry; apply Hp; [apply all_ok_of; [exact Pa|lia]|lia|lia]) end.
+        rewrite bindr_ok. rewrite HRs. apply with_path_good; assumption.
+    - (* ECall *)
+      simpl in P. apply andb_prop in P. destruct P as [Pc Pa].
+      change (size (ECall f0 args)) with (S (sum_size args)) in *. pose proof (len_le_sum args).
+      destruct (call_parts f0 Pc) as [Hk _].
+      rewrite body_call. unfold word_tok, LP, RP, tk. rewrite Hk. cbn [app]. rewrite operand_call.
+      rewrite <- app_assoc. cbn [app].
+      pose proof (call_parsed extra n IH f0 args R f (S g') Pc) as Hp.
+      unfold RP, tk in Hp.
+      match goal with |- bindr ?X _ = _ =>
+        replace X with (POk (ECall f0 args) R)
+          by (symmetry; apply Hp; [apply all_ok_of; [exact Pa|lia]|lia|lia]) end.
+      rewrite bindr_ok. rewrite Hsp.
+      destruct R as [|[k t] r]; [reflexivity|]. destruct k; try reflexivity. simpl in Hq. congruence.
+  Qed.
+End RTF.
+
+(* keywords that may follow an expression inside SORT / COLLECT *)
+Definition after_expr_kw (k : kind) : bool :=
+  match k with KSortDir | KInto | KWith | KAggregate => true | _ => false end.
+Lemma ctx_after_kw : forall k t r, after_expr_kw k = true -> ctx_ok false 0 1 ((k, t) :: r).
+Proof.
+  intros k t r H. destruct k; try discriminate; (split; [|split]; try exact I;
+    intros l _; destruct l as [|[|[|[|[|[|[|[|[|[|[|[|l]]]]]]]]]]]]; simpl; try reflexivity; try congruence; exact I).
+Qed.
+Definition gfollow (T : toks) : Prop :=
+  exists k t r, T = (k, t) :: r /\ (cstart k = true \/ after_expr_kw k = true).
+Lemma gfollow_ctx : forall T, gfollow T -> ctx_ok false 0 1 T.
+Proof.
+  intros T (k & t & r & -> & [H|H]).
+  - apply cstarts_ctx. exists k, t, r. split; [reflexivity|exact H].
+  - apply ctx_after_kw. exact H.
+Qed.
+Lemma cstarts_gfollow : forall T, cstarts T -> gfollow T.
+Proof. intros T (k & t & r & -> & H). exists k, t, r. split; [reflexivity|left; exact H]. Qed.
+
+Lemma desc_true : bytes_eqb (upper_name (bs "DESC")) (bs "DESC") = true.
+Proof. reflexivity. Qed.
+
+Lemma parse_call_ident : forall pe g f t x,
+  parse_call pe g ((KIdent, f) :: (KLParen, t) :: x)
+  = mapr (ECall (upper_name f)) (parse_seq pe g is_rparen x).
+Proof. reflexivity. Qed.
+
+Lemma ident_ok_kind : forall x, ident_ok x = true -> word_kind (runes_of x) = KIdent.
+Proof. intros x H. unfold ident_ok in H. destruct (word_kind (runes_of x)); try discriminate; reflexivity. Qed.
+
+Section RTF2.
+  Variable extra : expr -> bool.
+  Local Notation bodyx := (body extra).
+  Local Notation prx := (pr extra).
+  Local Notation GoodAt := (GoodAt extra).
+  Local Notation GoodFor := (GoodFor extra).
+
+  Variable n : nat.
+  Hypothesis IH : forall e, size e <= n -> printable e = true -> GoodAt e.
+  Hypothesis IHF : forall q, size_for q <= n -> printable_for q = true -> GoodFor q.
+
+  Local Notation expr_at := (expr_at extra n IH).
+
+  Definition keys_ok (ks : list (expr * bool)) : Prop :=
+    forall kd, In kd ks -> size (fst kd) <= n /\ printable (fst kd) = true.
+
+  Lemma sort_good : forall ks T f g,
+    ks <> [] -> keys_ok ks -> cstarts T ->
+    64 * sum_by (fun kd => size (fst kd)) ks + 16 <= f -> List.length ks < g ->
+    parse_sort (parse_at ch f) g (pr_sort extra ks ++ T) = POk ks T.
+  Proof.
+    induction ks as [|[e d] ks IHks]; intros T f g Hne Hok HT Hf Hg; [congruence|].
+    destruct g; [simpl in Hg; lia|].
+    destruct (Hok (e, d) (or_introl eq_refl)) as [He Pe]. cbn [fst] in He, Pe.
+    assert (HfE : 64 * size e + 16 <= f) by (unfold sum_by in Hf; simpl in Hf; lia).
+    destruct ks as [|kd2 ks'].
+    - cbn [pr_sort]. rewrite <- app_assoc. cbn [parse_sort].
+      destruct HT as (k & t & r & -> & Hk).
+      destruct d; cbn [app].
+      + rewrite expr_at; auto; [|apply ctx_after_kw; reflexivity].
+        unfold tk. cbn [bindr]. rewrite desc_true.
+        destruct k; try discriminate; reflexivity.
+      + rewrite expr_at; auto; [|apply cstarts_ctx; exists k, t, r; auto].
+        destruct k; try discriminate; reflexivity.
+    - change (pr_sort extra ((e, d) :: kd2 :: ks'))
+        with (prx 1 e ++ (if d then [tk KSortDir "DESC"] else []) ++ COMMA :: pr_sort extra (kd2 :: ks')).
+      rewrite <- !app_assoc. cbn [parse_sort].
+      assert (IHt : parse_sort (parse_at ch f) g (pr_sort extra (kd2 :: ks') ++ T) = POk (kd2 :: ks') T).
+      { apply IHks; auto; try discriminate.
+        - intros z Hz. apply Hok. right. exact Hz.
+        - unfold sum_by in *. simpl in *. lia.
+        - simpl in *. lia. }
+      destruct d; cbn [app].
+      + rewrite expr_at; auto; [|apply ctx_after_kw; reflexivity].
+        unfold tk, COMMA. cbn [bindr]. rewrite desc_true. unfold tk. rewrite IHt. reflexivity.
+      + rewrite expr_at; auto; [|apply ctx_closer; reflexivity].
+        unfold COMMA, tk. cbn [bindr]. rewrite IHt. reflexivity.
+  Qed.
+
+  Definition groups_ok (gs : list (name * expr)) : Prop :=
+    forall g, In g gs -> ident_ok (fst g) = true /\ size (snd g) <= n /\ printable (snd g) = true.
+
+  Lemma groups_good : forall gs T f g,
+    gs <> [] -> groups_ok gs -> gfollow T ->
+    64 * sum_by (fun x => size (snd x)) gs + 16 <= f -> List.length gs < g ->
+    parse_groups (parse_at ch f) g (pr_groups extra gs ++ T) = POk gs T.
+  Proof.
+    induction gs as [|[x e] gs IHgs]; intros T f g Hne Hok HT Hf Hg; [congruence|].
+    destruct g; [simpl in Hg; lia|].
+    destruct (Hok (x, e) (or_introl eq_refl)) as (Hx & He & Pe). cbn [fst snd] in *.
+    assert (HfE : 64 * size e + 16 <= f) by (unfold sum_by in Hf; simpl in Hf; lia).
+    destruct gs as [|g2 gs'].
+    - cbn [pr_groups app]. unfold word_tok, tk. rewrite (ident_ok_kind x Hx). cbn [parse_groups].
+      rewrite expr_at; auto; [|apply gfollow_ctx; exact HT].
+      destruct HT as (k & t & r & -> & [Hk|Hk]); destruct k; try discriminate; reflexivity.
+    - change (pr_groups extra ((x, e) :: g2 :: gs'))
+        with (word_tok x :: tk KAssign "=" :: prx 1 e ++ COMMA :: pr_groups extra (g2 :: gs')).
+      cbn [app]. rewrite <- app_assoc. cbn [app].
+      unfold word_tok, tk. rewrite (ident_ok_kind x Hx). cbn [parse_groups].
+      rewrite expr_at; auto; [|apply ctx_closer; reflexivity].
+      unfold COMMA, tk. cbn [bindr].
+      rewrite IHgs; auto; try discriminate.
+      + intros z Hz. apply Hok. right. exact Hz.
+      + unfold sum_by in *. simpl in *. lia.
+      + simpl in *. lia.
+  Qed.
+
+  Definition aggrs_ok (ss : list (name * name * list expr)) : Prop :=
+    forall a, In a ss -> ident_ok (fst (fst a)) = true /\ call_ok (snd (fst a)) = true
+                         /\ all_ok n (snd a) .
+
+  Definition aggr_size (ss : list (name * name * list expr)) : nat :=
+    sum_by (fun a => S (sum_size (snd a))) ss.
+
+  Lemma aggrs_good : forall ss T f g,
+    ss <> [] -> aggrs_ok ss -> cstarts T -> 64 * aggr_size ss + 16 <= f -> aggr_size ss < g ->
+    parse_aggrs (parse_at ch f) g (pr_aggrs extra ss ++ T) = POk ss T.
+  Proof.
+    induction ss as [|[[x fn] args] ss IHss]; intros T f g Hne Hok HT Hf Hg; [congruence|].
+    destruct g; [lia|].
+    destruct (Hok (x, fn, args) (or_introl eq_refl)) as (Hx & Hfn & Hall). cbn [fst snd] in *.
+    destruct (call_parts fn Hfn) as [Hk _].
+    pose proof (len_le_sum args) as Hlen.
+    assert (Hsz : aggr_size ((x, fn, args) :: ss) = S (sum_size args) + aggr_size ss) by reflexivity.
+    cbn [pr_aggrs]. unfold word_tok, LP, RP, tk. rewrite (ident_ok_kind x Hx), Hk.
+    cbn [app]. rewrite <- app_assoc. cbn [app parse_aggrs]. rewrite parse_call_ident.
+    destruct ss as [|a2 ss'].
+    - cbn [app].
+      pose proof (call_parsed extra n IH fn args T f (S g) Hfn Hall) as Hp. unfold RP, tk in Hp.
+      match goal with |- bindr ?X _ = _ =>
+        replace X with (POk (ECall fn args) T) by (symmetry; apply Hp; lia) end.
+      rewrite bindr_ok.
+      destruct HT as (k & t & r & -> & Hkk). destruct k; try discriminate; reflexivity.
+    - cbn [app].
+      pose proof (call_parsed extra n IH fn args (COMMA :: pr_aggrs extra (a2 :: ss') ++ T) f (S g) Hfn Hall) as Hp.
+      unfold RP, COMMA, tk in Hp. unfold COMMA, tk.
+      match goal with |- bindr ?X _ = _ =>
+        replace X with (POk (ECall fn args) ((KComma, bs ",") :: pr_aggrs extra (a2 :: ss') ++ T))
+          by (symmetry; apply Hp; lia) end.
+      rewrite bindr_ok.
+      rewrite IHss; auto; try discriminate.
+      + intros z Hz. apply Hok. right. exact Hz.
+      + rewrite Hsz in Hf. lia.
+      + rewrite Hsz in Hg. lia.
+  Qed.
+End RTF2.
+
+(* the equations of parse_clauses / parse_for on their first tokens *)
+Definition consc (c : fclause) (br : list fclause * fret) : list fclause * fret := (c :: fst br, snd br).
+
+Lemma pc_return : forall pe g t r,
+  parse_clauses pe (S g) ((KReturn, t) :: r)
+  = mapr (fun de => ([], RReturn (fst de) (snd de))) (parse_return pe r).
+Proof. reflexivity. Qed.
+Lemma pc_for : forall pe g t r,
+  parse_clauses pe (S g) ((KFor, t) :: r) = mapr (fun q => ([], RFor q)) (parse_for pe g r).
+Proof. reflexivity. Qed.
+Lemma pc_let : forall pe g t k x a r,
+  parse_clauses pe (S g) ((KLet, t) :: (k, x) :: (KAssign, a) :: r)
+  = if is_varname k || is_loopvar k
+    then bindr (pe false 1 r) (fun e r' => mapr (consc (CLet x e)) (parse_clauses pe g r'))
+    else PFail.
+Proof.
+  intros. cbn [parse_clauses parse_let]. destruct (is_varname k || is_loopvar k); [|reflexivity].
+  destruct (pe false 1 r); reflexivity.
+Qed.
+Lemma pc_filter : forall pe g t r,
+  parse_clauses pe (S g) ((KFilter, t) :: r)
+  = bindr (pe false 1 r) (fun e r' => mapr (consc (CFilter e)) (parse_clauses pe g r')).
+Proof. reflexivity. Qed.
+Lemma pc_sort : forall pe g t r,
+  parse_clauses pe (S g) ((KSort, t) :: r)
+  = bindr (parse_sort pe (S g) r) (fun ks r' => mapr (consc (CSort ks)) (parse_clauses pe g r')).
+Proof. reflexivity. Qed.
+Lemma pc_limit : forall pe g t r,
+  parse_clauses pe (S g) ((KLimit, t) :: r)
+  = bindr (parse_limit pe (S g) r) (fun c r' => mapr (consc c) (parse_clauses pe g r')).
+Proof. reflexivity. Qed.
+Lemma pc_collect : forall pe g t r,
+  parse_clauses pe (S g) ((KCollect, t) :: r)
+  = bindr (parse_collect pe (S g) r) (fun c r' => mapr (consc c) (parse_clauses pe g r')).
+Proof. reflexivity. Qed.
+Lemma pc_call : forall pe g f t x,
+  parse_clauses pe (S g) ((KIdent, f) :: (KLParen, t) :: x)
+  = bindr (call_stmt pe (S g) ((KIdent, f) :: (KLParen, t) :: x))
+      (fun c r' => mapr (consc (CCall c)) (parse_clauses pe g r')).
+Proof. reflexivity. Qed.
+
+Lemma pf_in2 : forall pe g v c k i r,
+  parse_for pe (S g) ((KIdent, v) :: (KComma, c) :: (KIdent, k) :: (KIn, i) :: r)
+  = bindr (parse_operand pe (S g) false r) (fun src r' =>
+      mapr (fun br => ForIn v (Some k) src (fst br) (snd br)) (parse_clauses pe g r')).
+Proof. reflexivity. Qed.
+Lemma pf_in1 : forall pe g v i r,
+  parse_for pe (S g) ((KIdent, v) :: (KIn, i) :: r)
+  = bindr (parse_operand pe (S g) false r) (fun src r' =>
+      mapr (fun br => ForIn v None src (fst br) (snd br)) (parse_clauses pe g r')).
+Proof. reflexivity. Qed.
+Lemma pf_dowhile : forall pe g v d w r,
+  parse_for pe (S g) ((KIdent, v) :: (KDo, d) :: (KWhile, w) :: r)
+  = bindr (pe false 1 r) (fun c r' =>
+      mapr (fun br => ForWhile v true c (fst br) (snd br)) (parse_clauses pe g r')).
+Proof. reflexivity. Qed.
+Lemma pf_while : forall pe g v w r,
+  parse_for pe (S g) ((KIdent, v) :: (KWhile, w) :: r)
+  = bindr (pe false 1 r) (fun c r' =>
+      mapr (fun br => ForWhile v false c (fst br) (snd br)) (parse_clauses pe g r')).
+Proof. reflexivity. Qed.
+
+Lemma pr_ctail_into : forall extra x p,
+  pr_ctail extra (CTInto x p)
+  = tk KInto "INTO" :: word_tok x :: match p with Some e => tk KAssign "=" :: pr extra 1 e | None => [] end.
+Proof. reflexivity. Qed.
+Lemma pr_ctail_count : forall extra x,
+  pr_ctail extra (CTCount x) = [tk KWith "WITH"; tk KCount "COUNT"; tk KInto "INTO"; word_tok x].
+Proof. reflexivity. Qed.
+Lemma pr_ctail_none : forall extra, pr_ctail extra CTNone = [].
+Proof. reflexivity. Qed.
+
+Lemma size_ctail_aggr : forall ss, size_ctail (CTAggr ss) = S (aggr_size ss).
+Proof. reflexivity. Qed.
+
+Lemma sum_by_in : forall A (f : A -> nat) l x, In x l -> f x <= sum_by f l.
+Proof.
+  intros A f l x H. induction l as [|y l IHl]; [destruct H|].
+  unfold sum_by in *. simpl. destruct H as [->|H]; [lia|]. specialize (IHl H). lia.
+Qed.
+
+Section RTF3.
+  Variable extra : expr -> bool.
+  Local Notation bodyx := (body extra).
+  Local Notation prx := (pr extra).
+  Local Notation GoodAt := (GoodAt extra).
+  Local Notation GoodFor := (GoodFor extra).
+
+  Variable n : nat.
+  Hypothesis IH : forall e, size e <= n -> printable e = true -> GoodAt e.
+  Hypothesis IHF : forall q, size_for q <= n -> printable_for q = true -> GoodFor q.
+
+  Local Notation expr_at := (expr_at extra n IH).
+
+  Lemma ctail_good : forall t T f g,
+    size_ctail t <= n -> printable_ctail t = true -> cstarts T ->
+    64 * size_ctail t + 16 <= f -> size_ctail t < g ->
+    parse_ctail (parse_at ch f) g (pr_ctail extra t ++ T) = POk t T.
+  Proof.
+    intros t T f g Hs P HT Hf Hg.
+    destruct t as [|x p|x|ss]; cbn [printable_ctail] in *.
+    - (* CTNone *) rewrite pr_ctail_none. cbn [app]. destruct HT as (k & t & r & -> & Hk).
+      destruct k; try discriminate; reflexivity.
+    - (* CTInto *) apply andb_prop in P. destruct P as [Px Pp]. cbn [size_ctail] in *.
+      rewrite pr_ctail_into. unfold word_tok, tk. rewrite (ident_ok_kind x Px).
+      destruct p as [e|].
+      + cbn [app parse_ctail]. rewrite expr_at; auto; try lia. apply cstarts_ctx. exact HT.
+      + cbn [app]. destruct HT as (k & t & r & -> & Hk).
+        destruct k; try discriminate; reflexivity.
+    - (* CTCount *) rewrite pr_ctail_count. cbn [app]. unfold word_tok, tk. rewrite (ident_ok_kind x P). reflexivity.
+    - (* CTAggr *) apply andb_prop in P. destruct P as [Pn Pa].
+      rewrite size_ctail_aggr in *. rewrite pr_ctail_aggr. cbn [app]. unfold tk at 1. cbn [parse_ctail].
+      rewrite (aggrs_good extra n IH ss T f g); auto; try lia.
+      + destruct ss; [discriminate|congruence].
+      + intros a Ha. rewrite forallb_forall in Pa. specialize (Pa a Ha).
+        apply andb_prop in Pa. destruct Pa as [Pa P3]. apply andb_prop in Pa. destruct Pa as [P1 P2].
+        split; [exact P1|split; [exact P2|]].
+        apply all_ok_of; [exact P3|].
+        pose proof (sum_by_in _ (fun a => S (sum_size (snd a))) ss a Ha) as Hle.
+        unfold aggr_size in Hs. cbn beta in Hle. lia.
+  Qed.
+
+  Lemma collect_good : forall gs t T f g,
+    size_clause (CCollect gs t) <= n -> printable_clause (CCollect gs t) = true -> cstarts T ->
+    64 * size_clause (CCollect gs t) + 16 <= f -> size_clause (CCollect gs t) < g ->
+    parse_collect (parse_at ch f) g (pr_groups extra gs ++ pr_ctail extra t ++ T) = POk (CCollect gs t) T.
+  Proof.
+    intros gs t T f g Hs P HT Hf Hg.
+    change (size_clause (CCollect gs t)) with (S (sum_by (fun x => size (snd x)) gs + size_ctail t)) in *.
+    cbn [printable_clause] in P. apply andb_prop in P. destruct P as [P Pne]. apply andb_prop in P. destruct P as [Pg Pt].
+    assert (Hct : parse_ctail (parse_at ch f) g (pr_ctail extra t ++ T) = POk t T).
+    { apply ctail_good; auto; lia. }
+    destruct gs as [|[x e] gs'].
+    - (* no grouping: WITH COUNT / AGGREGATE *)
+      cbn [pr_groups app]. simpl in Pne.
+      destruct t as [|x p|x|ss]; try discriminate.
+      + rewrite pr_ctail_count in *. cbn [app] in *. unfold word_tok, tk in *.
+        cbn [printable_ctail] in Pt. rewrite (ident_ok_kind x Pt) in *.
+        unfold parse_collect. rewrite Hct. reflexivity.
+      + rewrite pr_ctail_aggr in *. cbn [app] in *. unfold tk at 1. unfold tk at 1 in Hct.
+        unfold parse_collect. rewrite Hct. reflexivity.
+    - assert (Hgo : groups_ok n ((x, e) :: gs')).
+      { intros z Hz. rewrite forallb_forall in Pg. specialize (Pg z Hz).
+        apply andb_prop in Pg. destruct Pg as [P1 P2]. repeat split; auto.
+        pose proof (sum_by_in _ (fun x => size (snd x)) ((x, e) :: gs') z Hz) as Hle. cbn beta in Hle. lia. }
+      assert (Hgf : gfollow (pr_ctail extra t ++ T)).
+      { destruct t as [|y p|y|ss].
+        - rewrite pr_ctail_none. cbn [app]. apply cstarts_gfollow. exact HT.
+        - rewrite pr_ctail_into. eexists KInto, _, _. split; [reflexivity|right; reflexivity].
+        - rewrite pr_ctail_count. eexists KWith, _, _. split; [reflexivity|right; reflexivity].
+        - rewrite pr_ctail_aggr. eexists KAggregate, _, _. split; [reflexivity|right; reflexivity]. }
+      assert (Hlen : List.length ((x, e) :: gs') <= sum_by (fun x => size (snd x)) ((x, e) :: gs')).
+      { clear. induction ((x, e) :: gs') as [|y l IHl]; [simpl; lia|].
+        unfold sum_by in *. simpl. pose proof (size_pos (snd y)). lia. }
+      assert (Hgr : parse_groups (parse_at ch f) g (pr_groups extra ((x, e) :: gs') ++ pr_ctail extra t ++ T)
+                    = POk ((x, e) :: gs') (pr_ctail extra t ++ T)).
+      { apply (groups_good extra n IH); auto; try discriminate; lia. }
+      destruct (Hgo (x, e) (or_introl eq_refl)) as (Hx & _). cbn [fst] in Hx.
+      unfold parse_collect.
+      assert (Hhd : exists tl, pr_groups extra ((x, e) :: gs') ++ pr_ctail extra t ++ T = (KIdent, x) :: tl).
+      { destruct gs'; cbn [pr_groups app]; unfold word_tok; rewrite (ident_ok_kind x Hx); eexists; reflexivity. }
+      destruct Hhd as [tl Htl]. rewrite Htl in Hgr |- *. rewrite Hgr.
+      rewrite bindr_ok. rewrite Hct. reflexivity.
+  Qed.
+End RTF3.
+
+Lemma pr_clause_let : forall extra x e,
+  pr_clause extra (CLet x e) = tk KLet "LET" :: word_tok x :: tk KAssign "=" :: pr extra 1 e.
+Proof. reflexivity. Qed.
+Lemma pr_clause_filter : forall extra e, pr_clause extra (CFilter e) = tk KFilter "FILTER" :: pr extra 1 e.
+Proof. reflexivity. Qed.
+Lemma pr_clause_limit : forall extra o nn,
+  pr_clause extra (CLimit o nn)
+  = tk KLimit "LIMIT" :: match o with Some a => body extra a ++ [COMMA] | None => [] end ++ body extra nn.
+Proof. reflexivity. Qed.
+Lemma pr_clause_call : forall extra fn args, pr_clause extra (CCall (ECall fn args)) = body extra (ECall fn args).
+Proof. reflexivity. Qed.
+Lemma pr_clause_callq : forall extra a,
+  pr_clause extra (CCall (ESuppress a)) = body extra a ++ [tk KQuestion "?"].
+Proof. reflexivity. Qed.
+Lemma pr_ret_return : forall extra d e,
+  pr_ret extra (RReturn d e)
+  = tk KReturn "RETURN" :: (if d then [tk KDistinct "DISTINCT"] else []) ++ pr extra 1 e.
+Proof. reflexivity. Qed.
+Lemma pr_ret_for : forall extra q, pr_ret extra (RFor q) = pr_for extra q.
+Proof. reflexivity. Qed.
+
+Lemma pr_clause_cstarts : forall extra c tl, printable_clause c = true -> cstarts (pr_clause extra c ++ tl).
+Proof.
+  intros extra c tl P. destruct c as [x e|e|e|ks|o nn|gs t].
+  - rewrite pr_clause_let. eexists KLet, _, _. split; reflexivity.
+  - cbn [printable_clause] in P. apply andb_prop in P. destruct P as [Pc Pe].
+    destruct e; try discriminate.
+    + (* ECall *) rewrite pr_clause_call, body_call. simpl in Pe. apply andb_prop in Pe. destruct Pe as [Pf _].
+      unfold call_ok in Pf. apply andb_prop in Pf. destruct Pf as [Pf _].
+      unfold word_tok. cbn [app]. destruct (word_kind (runes_of f)); try discriminate.
+      eexists KIdent, _, _. split; reflexivity.
+    + (* ESuppress *) destruct e; try discriminate. rewrite pr_clause_callq, body_call.
+      simpl in Pe. apply andb_prop in Pe. destruct Pe as [Pf _].
+      unfold call_ok in Pf. apply andb_prop in Pf. destruct Pf as [Pf _].
+      unfold word_tok. cbn [app]. destruct (word_kind (runes_of f)); try discriminate.
+      eexists KIdent, _, _. split; reflexivity.
+  - rewrite pr_clause_filter. eexists KFilter, _, _. split; reflexivity.
+  - rewrite pr_clause_sort. eexists KSort, _, _. split; reflexivity.
+  - rewrite pr_clause_limit. eexists KLimit, _, _. split; reflexivity.
+  - rewrite pr_clause_collect. eexists KCollect, _, _. split; reflexivity.
+Qed.
+
+Lemma pr_ret_cstarts : forall extra r tl, cstarts (pr_ret extra r ++ tl).
+Proof.
+  intros extra r tl. destruct r as [d e|q].
+  - rewrite pr_ret_return. eexists KReturn, _, _. split; reflexivity.
+  - rewrite pr_ret_for. destruct q; [rewrite pr_for_in|rewrite pr_for_while]; eexists KFor, _, _; split; reflexivity.
+Qed.
+
+Lemma clauses_cstarts : forall extra bd r tl,
+  forallb printable_clause bd = true -> cstarts (pr_clauses extra bd ++ pr_ret extra r ++ tl).
+Proof.
+  intros extra bd r tl P. destruct bd as [|c bd].
+  - cbn [pr_clauses app]. apply pr_ret_cstarts.
+  - simpl in P. apply andb_prop in P. destruct P as [Pc _].
+    cbn [pr_clauses]. rewrite <- app_assoc. apply pr_clause_cstarts. exact Pc.
+Qed.
+
+Section RTF4.
+  Variable extra : expr -> bool.
+  Local Notation bodyx := (body extra).
+  Local Notation prx := (pr extra).
+  Local Notation GoodAt := (GoodAt extra).
+  Local Notation GoodFor := (GoodFor extra).
+
+  Variable n : nat.
+  Hypothesis IH : forall e, size e <= n -> printable e = true -> GoodAt e.
+  Hypothesis IHF : forall q, size_for q <= n -> printable_for q = true -> GoodFor q.
+
+  Local Notation expr_at := (expr_at extra n IH).
+  Local Notation operand_good := (operand_good extra n IH).
+
+  Lemma limit_value_good : forall s R f g,
+    limit_ok s = true -> size s <= n -> printable s = true -> opfollow R ->
+    64 * size s + 80 <= f -> size s < g ->
+    limit_value (parse_at ch f) g (bodyx s ++ R) = POk s R.
+  Proof.
+    intros s R f g Hl Hs P HR Hf Hg. unfold limit_value.
+    rewrite (operand_good true s R f g); auto.
+    destruct s; try discriminate; reflexivity.
+  Qed.
+
+  Lemma limit_good : forall o nn T f g,
+    size_clause (CLimit o nn) <= n -> printable_clause (CLimit o nn) = true -> cstarts T ->
+    64 * size_clause (CLimit o nn) + 80 <= f -> size_clause (CLimit o nn) < g ->
+    parse_limit (parse_at ch f) g
+      (match o with Some a => bodyx a ++ [COMMA] | None => [] end ++ bodyx nn ++ T)
+    = POk (CLimit o nn) T.
+  Proof.
+    intros o nn T f g Hs P HT Hf Hg. cbn [size_clause printable_clause] in *.
+    apply andb_prop in P. destruct P as [P Pn]. apply andb_prop in P. destruct P as [Po Pl].
+    pose proof (size_pos nn) as Hpn.
+    assert (Hn : limit_value (parse_at ch f) g (bodyx nn ++ T) = POk nn T).
+    { apply limit_value_good; auto; try lia. apply cstarts_opfollow. exact HT. }
+    unfold parse_limit. destruct o as [a|].
+    - apply andb_prop in Po. destruct Po as [Pla Pa]. pose proof (size_pos a).
+      rewrite <- app_assoc. cbn [app].
+      rewrite (limit_value_good a (COMMA :: bodyx nn ++ T) f g); auto; try lia; [|apply comma_opfollow].
+      unfold COMMA, tk. cbn [bindr]. rewrite Hn. reflexivity.
+    - cbn [app]. rewrite Hn. cbn [bindr].
+      destruct HT as (k & t & r & -> & Hk). destruct k; try discriminate; reflexivity.
+  Qed.
+
+  (* one clause in front of the rest of the loop body *)
+  Lemma clause_one : forall c T f g,
+    size_clause c <= n -> printable_clause c = true -> cstarts T ->
+    64 * size_clause c + 80 <= f -> size_clause c < g ->
+    parse_clauses (parse_at ch f) (S g) (pr_clause extra c ++ T)
+    = mapr (consc c) (parse_clauses (parse_at ch f) g T).
+  Proof.
+    intros c T f g Hs P HT Hf Hg.
+    pose proof (cstarts_ctx T HT) as HcT.
+    destruct c as [x e|e|e|ks|o nn|gs t].
+    - (* LET *) cbn [size_clause printable_clause] in *. apply andb_prop in P. destruct P as [Px Pe].
+      rewrite pr_clause_let. cbn [app]. unfold word_tok, tk. rewrite pc_let.
+      unfold let_ok in Px. rewrite Px. rewrite expr_at; auto; try lia; try reflexivity.
+    - (* call statement *) cbn [size_clause printable_clause] in *. apply andb_prop in P. destruct P as [Pc Pe].
+      destruct (cstarts_facts T HT) as (_ & _ & HqT & _).
+      destruct e; try discriminate.
+      + (* F(...) *) rewrite pr_clause_call, body_call.
+        simpl in Pe. apply andb_prop in Pe. destruct Pe as [Pf Pa].
+        change (size (ECall f0 args)) with (S (sum_size args)) in *. pose proof (len_le_sum args).
+        destruct (call_parts f0 Pf) as [Hk _].
+        unfold word_tok, LP, RP, tk. rewrite Hk. cbn [app]. rewrite pc_call.
+        rewrite <- app_assoc. cbn [app].
+        rewrite (call_stmt_plain _ _ _ (ECall f0 args) T); [reflexivity| |exact HqT].
+        rewrite parse_call_ident.
+        pose proof (call_parsed extra n IH f0 args T f (S g) Pf) as Hp. unfold RP, tk in Hp.
+        apply Hp; try lia. apply all_ok_of; [exact Pa|lia].
+      + (* F(...)? *) destruct e; try discriminate. rewrite pr_clause_callq, body_call.
+        simpl in Pe. apply andb_prop in Pe. destruct Pe as [Pf Pa].
+        change (size (ESuppress (ECall f0 args))) with (S (S (sum_size args))) in *. pose proof (len_le_sum args).
+        destruct (call_parts f0 Pf) as [Hk _].
+        unfold word_tok, LP, RP, tk. rewrite Hk. cbn [app]. rewrite pc_call.
+        rewrite <- !app_assoc. cbn [app].
+        rewrite (call_stmt_q _ _ _ (ECall f0 args) (bs "?") T); [reflexivity|].
+        rewrite parse_call_ident.
+        pose proof (call_parsed extra n IH f0 args ((KQuestion, bs "?") :: T) f (S g) Pf) as Hp. unfold RP, tk in Hp.
+        apply Hp; try lia. apply all_ok_of; [exact Pa|lia].
+    - (* FILTER *) cbn [size_clause printable_clause] in *.
+      rewrite pr_clause_filter. cbn [app]. unfold tk. rewrite pc_filter.
+      rewrite expr_at; auto; try lia; try reflexivity.
+    - (* SORT *) change (size_clause (CSort ks)) with (S (sum_by (fun kd => size (fst kd)) ks)) in *.
+      cbn [printable_clause] in P. apply andb_prop in P. destruct P as [Pn Pk].
+      rewrite pr_clause_sort. cbn [app]. unfold tk. rewrite pc_sort.
+      assert (Hlen : List.length ks <= sum_by (fun kd => size (fst kd)) ks).
+      { clear. induction ks as [|y l IHl]; [simpl; lia|].
+        unfold sum_by in *. simpl. pose proof (size_pos (fst y)). lia. }
+      rewrite (sort_good extra n IH ks T f (S g)); auto; try lia; try reflexivity.
+      + destruct ks; [discriminate|congruence].
+      + intros kd Hkd. rewrite forallb_forall in Pk. split; [|apply Pk; exact Hkd].
+        pose proof (sum_by_in _ (fun kd => size (fst kd)) ks kd Hkd) as Hle. cbn beta in Hle. lia.
+    - (* LIMIT *) rewrite pr_clause_limit. cbn [app]. unfold tk at 1. rewrite pc_limit.
+      rewrite <- app_assoc.
+      rewrite (limit_good o nn T f (S g)); auto; try lia; try reflexivity.
+    - (* COLLECT *) rewrite pr_clause_collect. cbn [app]. unfold tk at 1. rewrite pc_collect.
+      rewrite <- app_assoc.
+      rewrite (collect_good extra n IH gs t T f (S g)); auto; try lia; try reflexivity.
+  Qed.
+End RTF4.
+
+Lemma size_clause_pos : forall c, 1 <= size_clause c.
+Proof. destruct c; simpl; try lia. apply size_pos. Qed.
+
+Section RTF5.
+  Variable extra : expr -> bool.
+  Local Notation bodyx := (body extra).
+  Local Notation prx := (pr extra).
+  Local Notation GoodAt := (GoodAt extra).
+  Local Notation GoodFor := (GoodFor extra).
+
+  Variable n : nat.
+  Hypothesis IH : forall e, size e <= n -> printable e = true -> GoodAt e.
+  Hypothesis IHF : forall q, size_for q <= n -> printable_for q = true -> GoodFor q.
+
+  Local Notation expr_at := (expr_at extra n IH).
+
+  Lemma ret_good : forall r rest f g,
+    size_ret r <= n -> printable_ret r = true -> ctx_ok false 0 1 rest ->
+    64 * size_ret r + 16 <= f -> size_ret r < g ->
+    parse_clauses (parse_at ch f) g (pr_ret extra r ++ rest) = POk ([], r) rest.
+  Proof.
+    intros r rest f g Hs P Hc Hf Hg. destruct g; [lia|].
+    destruct r as [d e|q]; cbn [size_ret printable_ret] in *.
+    - rewrite pr_ret_return. cbn [app]. unfold tk at 1. rewrite pc_return. rewrite <- app_assoc.
+      destruct (pr_hd_kind extra 1 e rest P) as (k & Hk & Hg' & _).
+      destruct d; cbn [app].
+      + unfold tk. rewrite (parse_return_distinct _ _ _ k Hk Hg').
+        rewrite expr_at; auto; try lia; try reflexivity.
+      + rewrite (parse_return_plain _ _ k Hk (good_head_not_distinct k Hg')).
+        rewrite expr_at; auto; try lia; try reflexivity.
+    - rewrite pr_ret_for. rewrite (pr_for_tail extra). cbn [app]. unfold tk. rewrite pc_for.
+      rewrite (IHF q); auto; try lia; try reflexivity.
+  Qed.
+
+  Definition clauses_ok (bd : list fclause) : Prop :=
+    forall c, In c bd -> size_clause c <= n /\ printable_clause c = true.
+
+  Lemma clauses_good : forall bd r rest f g,
+    clauses_ok bd -> size_ret r <= n -> printable_ret r = true -> ctx_ok false 0 1 rest ->
+    64 * (sum_by size_clause bd + size_ret r) + 80 <= f -> sum_by size_clause bd + size_ret r < g ->
+    parse_clauses (parse_at ch f) g (pr_clauses extra bd ++ pr_ret extra r ++ rest) = POk (bd, r) rest.
+  Proof.
+    induction bd as [|c bd IHbd]; intros r rest f g Hok Hr Pr Hc Hf Hg.
+    - cbn [pr_clauses app]. unfold sum_by in *. simpl in *. apply ret_good; auto; lia.
+    - destruct g; [lia|].
+      destruct (Hok c (or_introl eq_refl)) as [Hsc Pc].
+      assert (Hsum : sum_by size_clause (c :: bd) = size_clause c + sum_by size_clause bd) by reflexivity.
+      assert (Hpb : forallb printable_clause bd = true).
+      { apply forallb_forall. intros x Hx. apply Hok. right. exact Hx. }
+      pose proof (size_clause_pos c) as Hcp. rewrite Hsum in Hf, Hg.
+      assert (Hrp : 1 <= size_ret r) by (destruct r; simpl; lia).
+      cbn [pr_clauses]. rewrite <- app_assoc.
+      rewrite (clause_one extra n IH); auto; try lia.
+      + rewrite IHbd; auto; try lia; try reflexivity. intros x Hx. apply Hok. right. exact Hx.
+      + apply clauses_cstarts. exact Hpb.
+  Qed.
+
+  (* a loop whose parts are within the induction bound *)
+  Lemma for_good : forall q, size_for q <= S n -> printable_for q = true -> GoodFor q.
+  Proof.
+    intros q Hs P rest f g Hc Hf Hg. destruct g; [lia|].
+    destruct q as [v k s bd r|v d c bd r]; cbn [size_for printable_for] in *;
+      fold (sum_by size_clause bd) in *.
+    - apply andb_prop in P. destruct P as [P Pr]. apply andb_prop in P. destruct P as [P Pb].
+      apply andb_prop in P. destruct P as [P Ps]. apply andb_prop in P. destruct P as [P Pso].
+      apply andb_prop in P. destruct P as [Pv Pk].
+      pose proof (size_pos s) as Hps.
+      assert (Hok : clauses_ok bd).
+      { intros x Hx. split; [|rewrite forallb_forall in Pb; apply Pb; exact Hx].
+        pose proof (sum_by_in _ size_clause bd x Hx). lia. }
+      assert (Hcl : parse_clauses (parse_at ch f) g (pr_clauses extra bd ++ pr_ret extra r ++ rest) = POk (bd, r) rest).
+      { apply clauses_good; auto; lia. }
+      assert (Hsrc : parse_operand (parse_at ch f) (S g) false
+                       (bodyx s ++ pr_clauses extra bd ++ pr_ret extra r ++ rest)
+                     = POk s (pr_clauses extra bd ++ pr_ret extra r ++ rest)).
+      { apply (operand_good extra n IH false); auto; try lia.
+        apply cstarts_opfollow. apply clauses_cstarts. exact Pb. }
+      unfold for_tail. rewrite pr_for_in. cbn [tl].
+      unfold word_tok. rewrite (ident_ok_kind v Pv).
+      destruct k as [k'|].
+      + unfold COMMA, tk. rewrite (ident_ok_kind k' Pk). cbn [app]. rewrite <- !app_assoc.
+        rewrite pf_in2. rewrite Hsrc. cbn [bindr]. rewrite Hcl. reflexivity.
+      + unfold tk. cbn [app]. rewrite <- !app_assoc.
+        rewrite pf_in1. rewrite Hsrc. cbn [bindr]. rewrite Hcl. reflexivity.
+    - apply andb_prop in P. destruct P as [P Pr]. apply andb_prop in P. destruct P as [P Pb].
+      apply andb_prop in P. destruct P as [Pv Pc].
+      pose proof (size_pos c) as Hpc.
+      assert (Hok : clauses_ok bd).
+      { intros x Hx. split; [|rewrite forallb_forall in Pb; apply Pb; exact Hx].
+        pose proof (sum_by_in _ size_clause bd x Hx). lia. }
+      assert (Hcl : parse_clauses (parse_at ch f) g (pr_clauses extra bd ++ pr_ret extra r ++ rest) = POk (bd, r) rest).
+      { apply clauses_good; auto; lia. }
+      assert (Hce : parse_at ch f false 1 (prx 1 c ++ pr_clauses extra bd ++ pr_ret extra r ++ rest)
+                    = POk c (pr_clauses extra bd ++ pr_ret extra r ++ rest)).
+      { apply expr_at; auto; try lia. apply cstarts_ctx. apply clauses_cstarts. exact Pb. }
+      unfold for_tail. rewrite pr_for_while. cbn [tl].
+      unfold word_tok. rewrite (ident_ok_kind v Pv).
+      destruct d; unfold tk; cbn [app]; rewrite <- !app_assoc.
+      + rewrite pf_dowhile. rewrite Hce. cbn [bindr]. rewrite Hcl. reflexivity.
+      + rewrite pf_while. rewrite Hce. cbn [bindr]. rewrite Hcl. reflexivity.
+  Qed.
+End RTF5.
+
+(* ------------------------------------------------ the theorem *)
+Lemma good_step : forall extra n,
+  (forall e, size e <= n -> printable e = true -> GoodAt extra e) ->
+  (forall q, size_for q <= n -> printable_for q = true -> GoodFor extra q) ->
+  forall e, size e <= S n -> printable e = true -> GoodAt extra e.
+Proof.
+  intros extra n IHn IHF e Hs P.
   destruct e; simpl in P; try discriminate.
   - apply good_none.
   - apply good_bool.
@@ -1444,6 +2974,10 @@ Proof.
   - apply good_str; exact P.
   - (* EArr *) apply (good_arr extra n IHn). apply all_ok_of; [exact P|].
     change (size (EArr es)) with (S (sum_size es)) in Hs. lia.
+  - (* EObj *) apply (good_obj extra n IHn). intros q Hq. split.
+    + change (size (EObj ps)) with (S (sum_by size_prop ps)) in Hs.
+      pose proof (sum_by_in _ size_prop ps q Hq). lia.
+    + rewrite forallb_forall in P. apply P. exact Hq.
   - apply good_var; exact P.
   - apply good_param; exact P.
   - (* EUn *) simpl in Hs. apply (good_un extra n IHn); [lia|exact P].
@@ -1458,13 +2992,40 @@ Proof.
   - eapply (good_bin extra n IHn); try reflexivity; auto.
   - eapply (good_bin extra n IHn); try reflexivity; auto.
   - eapply (good_bin extra n IHn); try reflexivity; auto.
+  - (* ERange *) apply andb_prop in P. destruct P as [Pa Pb]. apply good_range; assumption.
+  - (* EMember *) apply andb_prop in P. destruct P as [P Pg]. apply andb_prop in P. destruct P as [P Pn].
+    apply andb_prop in P. destruct P as [Pm Ps].
+    assert (Hne : path <> []) by (destruct path; [discriminate|congruence]).
+    rewrite (size_member e path Hne) in Hs.
+    apply (good_member extra n IHn); auto; try lia.
+    intros x Hx. split; [|rewrite forallb_forall in Pg; apply Pg; exact Hx].
+    pose proof (sum_by_in _ size_seg path x Hx). lia.
   - (* ECall *) apply andb_prop in P. destruct P as [Pc Pa].
     apply (good_call extra n IHn); [exact Pc|]. apply all_ok_of; [exact Pa|].
     change (size (ECall f args)) with (S (sum_size args)) in Hs. lia.
   - (* ESuppress *) simpl in Hs. apply (good_suppress extra n IHn); [lia|exact P].
+  - (* ESub *) simpl in Hs. apply good_sub. apply IHF; [lia|exact P].
 Qed.
 
-(* ------------------------------------------------ corollaries *)
+Lemma size_for_pos : forall q, 1 <= size_for q.
+Proof. destruct q; simpl; lia. Qed.
+
+Theorem good_joint : forall extra n,
+  (forall e, size e <= n -> printable e = true -> GoodAt extra e) /\
+  (forall q, size_for q <= n -> printable_for q = true -> GoodFor extra q).
+Proof.
+  intros extra. induction n as [|n [IHe IHf]].
+  - split; [intros e Hs; pose proof (size_pos e); lia|intros q Hs; pose proof (size_for_pos q); lia].
+  - split.
+    + apply good_step; assumption.
+    + apply for_good; assumption.
+Qed.
+
+Theorem good_all : forall extra n e, size e <= n -> printable e = true -> GoodAt extra e.
+Proof. intros extra n. apply (proj1 (good_joint extra n)). Qed.
+Theorem good_for_all : forall extra q, printable_for q = true -> GoodFor extra q.
+Proof. intros extra q. apply (proj2 (good_joint extra (size_for q))). apply le_n. Qed.
+
 Lemma ctx_nil : forall tb B lv, ctx_ok tb B lv [].
 Proof.
   intros. split; [|split]; try exact I.
@@ -1506,15 +3067,6 @@ Qed.
 Definition ret_prog (e : expr) : program := {| p_stmts := []; p_ret := BReturn e |}.
 Definition ret_toks (extra : expr -> bool) (e : expr) : toks := tk KReturn "RETURN" :: pr extra 1 e.
 
-Lemma parse_return_plain : forall pe ts k,
-  hd_kind ts = Some k -> k <> KDistinct ->
-  parse_return pe ts = mapr (fun e => (false, e)) (pe false 1 ts).
-Proof.
-  intros pe ts k H Hk. unfold parse_return.
-  destruct ts as [|[k0 t0] r0]; [discriminate|]. simpl in H. inversion H; subst.
-  destruct k; try reflexivity. congruence.
-Qed.
-
 Theorem return_prefix : forall extra e s f g,
   printable e = true -> hd_kind (pr extra 1 e ++ s) <> Some KDistinct ->
   ctx_ok false 0 1 s -> 64 * size e + 16 <= f ->
@@ -1533,68 +3085,421 @@ Proof. intros [] ts; simpl; [rewrite app_length; simpl; lia|lia]. Qed.
 Lemma binop_nil : forall L, binop L [] = None.
 Proof. intros L. destruct L as [|[|[|[|[|[|[|[|[|[|[|[|L]]]]]]]]]]]]; reflexivity. Qed.
 
-Lemma size_le_len : forall extra n e,
-  size e <= n -> printable e = true -> size e <= List.length (body extra e).
+Lemma pr_prop_named : forall extra k e,
+  pr_prop extra (PNamed k e)
+  = (if is_word_text k then word_tok k else quote_tok k) :: tk KColon ":" :: pr extra 1 e.
+Proof. reflexivity. Qed.
+Lemma pr_prop_param : forall extra x e,
+  pr_prop extra (PComputed (EParam x) e) = tk KParam "@" :: word_tok x :: tk KColon ":" :: pr extra 1 e.
+Proof. reflexivity. Qed.
+
+Lemma body_sub : forall extra q, body extra (ESub q) = LP :: pr_for extra q ++ [RP].
+Proof. reflexivity. Qed.
+
+Lemma bin_view_body : forall extra e L a b ops mk,
+  bin_view e = Some (L, a, b, ops, mk) ->
+  body extra e = pr extra L a ++ ops ++ pr extra (S L) b /\ size e = S (size a + size b) /\ 1 <= List.length ops.
 Proof.
-  intros extra. induction n as [|n IHn]; intros e Hs P.
-  { pose proof (size_pos e). lia. }
+  intros extra e L a b ops mk V.
+  destruct (bin_view_spec extra e L a b ops mk V) as (_ & _ & _ & Hb & Hop & _ & _ & _ & Hsz & _).
+  repeat split; auto.
+  destruct ops; [|simpl; lia]. specialize (Hop []). simpl in Hop. rewrite binop_nil in Hop. discriminate.
+Qed.
+
+Lemma sum_le_concat : forall A (sz : A -> nat) (pr1 : A -> toks) (l : list A),
+  (forall x, In x l -> sz x <= List.length (pr1 x)) ->
+  sum_by sz l <= List.length (flat_map pr1 l).
+Proof.
+  intros A sz pr1 l H. induction l as [|x l IHl]; [simpl; lia|].
+  unfold sum_by in *. simpl. rewrite app_length.
+  pose proof (H x (or_introl eq_refl)). assert (forall y, In y l -> sz y <= List.length (pr1 y)).
+  { intros y Hy. apply H. right. exact Hy. } specialize (IHl H1). lia.
+Qed.
+
+Lemma pr_clause_call_gen : forall extra e,
+  call_stmt_ok e = true ->
+  List.length (body extra e) <= List.length (pr_clause extra (CCall e)) + 2.
+Proof.
+  intros extra e H. destruct e; try discriminate.
+  - rewrite pr_clause_call. lia.
+  - destruct e; try discriminate. rewrite pr_clause_callq. rewrite (body_suppress extra).
+    cbn [inner List.length]. rewrite !app_length. simpl. lia.
+Qed.
+
+(* every printable construct has at least as many tokens as its size: the
+   fuel [fuel_for] gives is enough for every printed program *)
+Lemma size_le_joint : forall extra n,
+  (forall e, size e <= n -> printable e = true -> size e <= List.length (body extra e)) /\
+  (forall q, size_for q <= n -> printable_for q = true -> S (size_for q) <= List.length (pr_for extra q)).
+Proof.
+  intros extra. induction n as [|n [IHe IHq]].
+  { split; [intros e Hs; pose proof (size_pos e); lia|intros q Hs; pose proof (size_for_pos q); lia]. }
   assert (Hpr : forall m x, size x <= n -> printable x = true -> size x <= List.length (pr extra m x)).
   { intros m x Hx Px. unfold pr. pose proof (len_wrap (needs extra m x) (body extra x)).
-    specialize (IHn x Hx Px). lia. }
-  assert (Hlist : forall es, all_ok n es -> sum_size es <= List.length (pr_list extra es)).
-  { induction es as [|x es IHes]; intros Hall; [simpl; lia|].
-    destruct (Hall x (or_introl eq_refl)) as [Hx Px].
-    assert (IHes' : sum_size es <= List.length (pr_list extra es)).
-    { apply IHes. intros z Hz. apply Hall. right. exact Hz. }
-    specialize (Hpr 1 x Hx Px).
+    specialize (IHe x Hx Px). lia. }
+  assert (Hlist : forall es, sum_size es <= n -> forallb printable es = true ->
+                    sum_size es <= List.length (pr_list extra es)).
+  { induction es as [|x es IHes]; intros Hsum Pes; [simpl; lia|].
+    change (sum_size (x :: es)) with (size x + sum_size es) in *.
+    simpl in Pes. apply andb_prop in Pes. destruct Pes as [Px Pes].
+    pose proof (Hpr 1 x ltac:(lia) Px) as Hx. specialize (IHes ltac:(lia) Pes).
     destruct es as [|y es'].
-    - simpl. unfold sum_size. simpl. lia.
+    - simpl. unfold sum_size in *. simpl in *. lia.
     - change (pr_list extra (x :: y :: es')) with (pr extra 1 x ++ COMMA :: pr_list extra (y :: es')).
-      rewrite app_length. cbn [List.length].
-      change (sum_size (x :: y :: es')) with (size x + sum_size (y :: es')). lia. }
-  destruct (bin_view e) as [[[[[L a] b] ops] mk]|] eqn:V.
-  - destruct (bin_view_spec extra e L a b ops mk V) as (_ & _ & _ & Hb & Hop & _ & _ & _ & Hsz & Hp).
-    rewrite Hp in P. apply andb_prop in P. destruct P as [Pa Pb].
-    rewrite Hb, Hsz. rewrite !app_length.
-    assert (1 <= List.length ops).
-    { destruct ops; [|simpl; lia]. specialize (Hop []). simpl in Hop. rewrite binop_nil in Hop. discriminate. }
-    pose proof (Hpr L a ltac:(lia) Pa) as Ha. pose proof (Hpr (S L) b ltac:(lia) Pb) as Hbb.
-    lia.
-  - destruct e; simpl in V; try discriminate; simpl in P; try discriminate;
-      try (simpl; lia).
-    + (* EInt *) cbn [size body]. destruct (z <? 0)%Z; simpl; lia.
-    + (* EArr *) rewrite body_arr. cbn [List.length]. rewrite app_length. cbn [List.length].
-      change (size (EArr es)) with (S (sum_size es)) in *.
-      assert (all_ok n es) by (apply all_ok_of; [exact P|lia]).
-      specialize (Hlist es H). lia.
-    + (* EUn *) cbn [size body List.length]. simpl in Hs.
-      specialize (Hpr 4 e ltac:(lia) P). unfold pr in Hpr. lia.
-    + (* ELog *) destruct o; discriminate.
-    + (* ECond *)
-      apply andb_prop in P. destruct P as [P P3]. apply andb_prop in P. destruct P as [P1 P2].
-      rewrite (body_cond extra).
-      destruct t as [t'|]; cbn [opt_toks size] in *;
-        rewrite !app_length; cbn [List.length]; rewrite ?app_length; cbn [List.length].
-      * pose proof (Hpr 1 e1 ltac:(lia) P1) as H1. pose proof (Hpr 2 e2 ltac:(lia) P3) as H3.
-        pose proof (IHn t' ltac:(lia) P2) as H2. pose proof (len_prt extra t') as H2'. lia.
-      * pose proof (Hpr 1 e1 ltac:(lia) P1) as H1. pose proof (Hpr 2 e2 ltac:(lia) P3) as H3. lia.
-    + (* ECall *) apply andb_prop in P. destruct P as [Pc Pa].
-      rewrite body_call. cbn [List.length]. rewrite app_length. cbn [List.length].
-      change (size (ECall f args)) with (S (sum_size args)) in *.
-      assert (all_ok n args) by (apply all_ok_of; [exact Pa|lia]).
-      specialize (Hlist args H). lia.
-    + (* ESuppress *) rewrite (body_suppress extra). cbn [size List.length]. rewrite app_length.
-      simpl in Hs. specialize (IHn e ltac:(lia) P).
-      assert (List.length (body extra e) <= List.length (inner extra e)).
-      { destruct e; cbn [inner]; try (cbn [List.length]; rewrite app_length; simpl; lia). lia. }
-      simpl. lia.
+      rewrite app_length. cbn [List.length]. lia. }
+  assert (Hseg : forall sg, size_seg sg <= n -> printable_seg sg = true ->
+                   S (size_seg sg) <= List.length (pr_seg extra sg)).
+  { intros [o e] Hsg Psg. cbn [size_seg] in *.
+    destruct (estr_dec e) as [[nm ->]|Hne].
+    - cbn [pr_seg size]. destruct (is_word_text nm), o; simpl; lia.
+    - destruct (pr_seg_other extra o e Hne) as [-> Epp]. rewrite Epp in Psg. pose proof (Hpr 1 e ltac:(lia) Psg).
+      destruct o; cbn [app List.length]; rewrite app_length; simpl; lia. }
+  assert (Hsegs : forall p, sum_by size_seg p <= n -> forallb printable_seg p = true ->
+                    sum_by size_seg p + List.length p <= List.length (pr_segs extra p)).
+  { induction p as [|sg p IHp]; intros Hsum Pp; [simpl; lia|].
+    change (sum_by size_seg (sg :: p)) with (size_seg sg + sum_by size_seg p) in *.
+    simpl in Pp. apply andb_prop in Pp. destruct Pp as [Psg Pp].
+    cbn [pr_segs List.length]. rewrite app_length. pose proof (Hseg sg ltac:(lia) Psg). specialize (IHp ltac:(lia) Pp). lia. }
+  assert (Hprop : forall p, size_prop p <= n -> printable_prop p = true ->
+                    size_prop p <= List.length (pr_prop extra p)).
+  { intros [k e|k e|x] Hp Pp; cbn [size_prop printable_prop] in *.
+    - rewrite pr_prop_named. cbn [List.length]. pose proof (Hpr 1 e ltac:(lia) Pp) as H. lia.
+    - apply andb_prop in Pp. destruct Pp as [Pk Pe].
+      destruct (eparam_dec k) as [[x ->]|Hne].
+      + rewrite pr_prop_param. cbn [List.length]. cbn [size] in Hp |- *.
+        pose proof (Hpr 1 e ltac:(lia) Pe) as H. lia.
+      + rewrite (pr_prop_computed extra k e Hne). cbn [List.length]. rewrite app_length. cbn [List.length].
+        pose proof (Hpr 1 k ltac:(lia) Pk). pose proof (Hpr 1 e ltac:(lia) Pe). lia.
+    - simpl. lia. }
+  assert (Hprops : forall ps, sum_by size_prop ps <= n -> forallb printable_prop ps = true ->
+                     sum_by size_prop ps <= List.length (pr_props extra ps)).
+  { induction ps as [|p ps IHps]; intros Hsum Pps; [simpl; lia|].
+    change (sum_by size_prop (p :: ps)) with (size_prop p + sum_by size_prop ps) in *.
+    simpl in Pps. apply andb_prop in Pps. destruct Pps as [Pp Pps].
+    pose proof (Hprop p ltac:(lia) Pp). specialize (IHps ltac:(lia) Pps).
+    destruct ps as [|p2 ps'].
+    - cbn [pr_props]. unfold sum_by in *. simpl in *. lia.
+    - change (pr_props extra (p :: p2 :: ps')) with (pr_prop extra p ++ COMMA :: pr_props extra (p2 :: ps')).
+      rewrite app_length. cbn [List.length]. lia. }
+  split.
+  - (* expressions *)
+    intros e Hs P.
+    destruct (bin_view e) as [[[[[L a] b] ops] mk]|] eqn:V.
+    + destruct (bin_view_body extra e L a b ops mk V) as (Hb & Hsz & Hops).
+      destruct (bin_view_spec extra e L a b ops mk V) as (_ & _ & _ & _ & _ & _ & _ & _ & _ & Hp).
+      rewrite Hp in P. apply andb_prop in P. destruct P as [Pa Pb].
+      rewrite Hb, Hsz. rewrite !app_length.
+      pose proof (Hpr L a ltac:(lia) Pa). pose proof (Hpr (S L) b ltac:(lia) Pb). lia.
+    + destruct e; simpl in V; try discriminate; simpl in P; try discriminate; try (simpl; lia).
+      * (* EInt *) cbn [size body]. destruct (z <? 0)%Z; simpl; lia.
+      * (* EArr *) rewrite body_arr. cbn [List.length]. rewrite app_length. cbn [List.length].
+        change (size (EArr es)) with (S (sum_size es)) in *. specialize (Hlist es ltac:(lia) P). lia.
+      * (* EObj *) rewrite body_obj. cbn [List.length]. rewrite app_length. cbn [List.length].
+        change (size (EObj ps)) with (S (sum_by size_prop ps)) in *. specialize (Hprops ps ltac:(lia) P). lia.
+      * (* EUn *) cbn [size body List.length]. simpl in Hs.
+        pose proof (Hpr 4 e ltac:(lia) P) as H. unfold pr in H. lia.
+      * (* ELog *) destruct o; discriminate.
+      * (* ECond *)
+        apply andb_prop in P. destruct P as [P P3]. apply andb_prop in P. destruct P as [P1 P2].
+        rewrite (body_cond extra). simpl in Hs.
+        destruct t as [t'|]; cbn [opt_toks size] in *;
+          rewrite !app_length; cbn [List.length]; rewrite ?app_length; cbn [List.length].
+        -- pose proof (Hpr 1 e1 ltac:(lia) P1). pose proof (Hpr 2 e2 ltac:(lia) P3).
+           pose proof (IHe t' ltac:(lia) P2). pose proof (len_prt extra t'). lia.
+        -- pose proof (Hpr 1 e1 ltac:(lia) P1). pose proof (Hpr 2 e2 ltac:(lia) P3). lia.
+      * (* ERange *) cbn [size body]. rewrite app_length. cbn [List.length]. lia.
+      * (* EMember *) apply andb_prop in P. destruct P as [P Pg]. apply andb_prop in P. destruct P as [P Pn].
+        apply andb_prop in P. destruct P as [Pm Ps].
+        assert (Hne : path <> []) by (destruct path; [discriminate|congruence]).
+        rewrite (size_member e path Hne) in *.
+        rewrite body_member. rewrite app_length.
+        pose proof (IHe e ltac:(lia) Ps). pose proof (Hsegs path ltac:(lia) Pg).
+        destruct path; [congruence|]. cbn [List.length] in *. lia.
+      * (* ECall *) apply andb_prop in P. destruct P as [Pc Pa].
+        rewrite body_call. cbn [List.length]. rewrite app_length. cbn [List.length].
+        change (size (ECall f args)) with (S (sum_size args)) in *. specialize (Hlist args ltac:(lia) Pa). lia.
+      * (* ESuppress *) rewrite (body_suppress extra). cbn [size List.length]. rewrite app_length.
+        simpl in Hs. specialize (IHe e ltac:(lia) P).
+        assert (List.length (body extra e) <= List.length (inner extra e)).
+        { destruct e; cbn [inner]; try (cbn [List.length]; rewrite app_length; simpl; lia). lia. }
+        simpl. lia.
+      * (* ESub *) rewrite body_sub. cbn [size List.length]. rewrite app_length. simpl in Hs.
+        specialize (IHq q ltac:(lia) P). simpl. lia.
+  - (* loops *)
+    assert (Hkeys : forall ks, sum_by (fun kd => size (fst kd)) ks <= n ->
+                      forallb (fun kd => printable (fst kd)) ks = true ->
+                      sum_by (fun kd => size (fst kd)) ks <= List.length (pr_sort extra ks)).
+    { induction ks as [|[e d] ks IHks]; intros Hsum Pk; [simpl; lia|].
+      change (sum_by (fun kd => size (fst kd)) ((e, d) :: ks)) with (size e + sum_by (fun kd => size (fst kd)) ks) in *.
+      simpl in Pk. apply andb_prop in Pk. destruct Pk as [Pe Pk].
+      pose proof (Hpr 1 e ltac:(lia) Pe). specialize (IHks ltac:(lia) Pk).
+      destruct ks as [|kd2 ks'].
+      - cbn [pr_sort]. rewrite app_length. unfold sum_by in *. simpl in *. lia.
+      - change (pr_sort extra ((e, d) :: kd2 :: ks'))
+          with (pr extra 1 e ++ (if d then [tk KSortDir "DESC"] else []) ++ COMMA :: pr_sort extra (kd2 :: ks')).
+        rewrite !app_length. cbn [List.length]. lia. }
+    assert (Hgroups : forall gs, sum_by (fun x => size (snd x)) gs <= n ->
+                        forallb (fun g => ident_ok (fst g) && printable (snd g)) gs = true ->
+                        sum_by (fun x => size (snd x)) gs <= List.length (pr_groups extra gs)).
+    { induction gs as [|[x e] gs IHgs]; intros Hsum Pg; [simpl; lia|].
+      change (sum_by (fun x => size (snd x)) ((x, e) :: gs)) with (size e + sum_by (fun x => size (snd x)) gs) in *.
+      simpl in Pg. apply andb_prop in Pg. destruct Pg as [Pe Pg]. apply andb_prop in Pe. destruct Pe as [_ Pe].
+      pose proof (Hpr 1 e ltac:(lia) Pe). specialize (IHgs ltac:(lia) Pg).
+      destruct gs as [|g2 gs'].
+      - cbn [pr_groups List.length]. unfold sum_by in *. simpl in *. lia.
+      - change (pr_groups extra ((x, e) :: g2 :: gs'))
+          with (word_tok x :: tk KAssign "=" :: pr extra 1 e ++ COMMA :: pr_groups extra (g2 :: gs')).
+        cbn [List.length]. rewrite app_length. cbn [List.length]. lia. }
+    assert (Haggrs : forall ss, aggr_size ss <= n ->
+                       forallb (fun s => ident_ok (fst (fst s)) && call_ok (snd (fst s)) && forallb printable (snd s)) ss = true ->
+                       aggr_size ss <= List.length (pr_aggrs extra ss)).
+    { induction ss as [|[[x fn] args] ss IHss]; intros Hsum Pa; [simpl; lia|].
+      change (aggr_size ((x, fn, args) :: ss)) with (S (sum_size args) + aggr_size ss) in *.
+      simpl in Pa. apply andb_prop in Pa. destruct Pa as [P1 Pa]. apply andb_prop in P1. destruct P1 as [_ Pargs].
+      pose proof (Hlist args ltac:(lia) Pargs). specialize (IHss ltac:(lia) Pa).
+      cbn [pr_aggrs List.length]. rewrite app_length. cbn [List.length].
+      destruct ss as [|a ss']; [change (aggr_size []) with 0; cbn [List.length]; lia|cbn [List.length] in *; lia]. }
+    assert (Hctail : forall t, size_ctail t <= n -> printable_ctail t = true ->
+                       size_ctail t <= List.length (pr_ctail extra t)).
+    { intros [|x p|x|ss] Ht Pt; cbn [printable_ctail] in *.
+      - simpl. lia.
+      - rewrite pr_ctail_into. apply andb_prop in Pt. destruct Pt as [_ Pp].
+        destruct p as [e|]; cbn [size_ctail List.length] in *; [pose proof (Hpr 1 e ltac:(lia) Pp)|]; lia.
+      - rewrite pr_ctail_count. simpl. lia.
+      - rewrite pr_ctail_aggr, size_ctail_aggr in *. apply andb_prop in Pt. destruct Pt as [_ Pa].
+        cbn [List.length]. pose proof (Haggrs ss ltac:(lia) Pa). lia. }
+    assert (Hclause : forall c, size_clause c <= n -> printable_clause c = true ->
+                        size_clause c <= List.length (pr_clause extra c)).
+    { intros [x e|e|e|ks|o nn|gs t] Hc Pc; cbn [printable_clause] in *.
+      - rewrite pr_clause_let. apply andb_prop in Pc. destruct Pc as [_ Pe].
+        cbn [size_clause List.length] in *. pose proof (Hpr 1 e ltac:(lia) Pe). lia.
+      - apply andb_prop in Pc. destruct Pc as [Pcs Pe]. cbn [size_clause] in *.
+        destruct e; try discriminate.
+        + rewrite pr_clause_call. apply (IHe (ECall f args) ltac:(lia) Pe).
+        + destruct e; try discriminate. rewrite pr_clause_callq. rewrite app_length. cbn [List.length].
+          cbn [size] in *. simpl in Pe. pose proof (IHe (ECall f args) ltac:(cbn [size]; lia) Pe). cbn [size] in H. lia.
+      - rewrite pr_clause_filter. cbn [size_clause List.length] in *. pose proof (Hpr 1 e ltac:(lia) Pc). lia.
+      - rewrite pr_clause_sort. apply andb_prop in Pc. destruct Pc as [_ Pk].
+        change (size_clause (CSort ks)) with (S (sum_by (fun kd => size (fst kd)) ks)) in *.
+        cbn [List.length]. pose proof (Hkeys ks ltac:(lia) Pk). lia.
+      - rewrite pr_clause_limit. apply andb_prop in Pc. destruct Pc as [Pc Pn]. apply andb_prop in Pc. destruct Pc as [Po _].
+        cbn [size_clause List.length] in *. rewrite app_length.
+        pose proof (IHe nn ltac:(lia) Pn).
+        destruct o as [a|].
+        + apply andb_prop in Po. destruct Po as [_ Pa]. pose proof (IHe a ltac:(lia) Pa).
+          rewrite app_length. cbn [List.length]. lia.
+        + simpl. lia.
+      - rewrite pr_clause_collect. apply andb_prop in Pc. destruct Pc as [Pc _]. apply andb_prop in Pc. destruct Pc as [Pg Pt].
+        change (size_clause (CCollect gs t)) with (S (sum_by (fun x => size (snd x)) gs + size_ctail t)) in *.
+        cbn [List.length]. rewrite app_length. unfold name in *.
+        pose proof (Hgroups gs ltac:(lia) Pg). pose proof (Hctail t ltac:(lia) Pt). lia. }
+    assert (Hclauses : forall bd, sum_by size_clause bd <= n -> forallb printable_clause bd = true ->
+                         sum_by size_clause bd <= List.length (pr_clauses extra bd)).
+    { induction bd as [|c bd IHbd]; intros Hsum Pb; [simpl; lia|].
+      change (sum_by size_clause (c :: bd)) with (size_clause c + sum_by size_clause bd) in *.
+      simpl in Pb. apply andb_prop in Pb. destruct Pb as [Pc Pb].
+      cbn [pr_clauses]. rewrite app_length. pose proof (Hclause c ltac:(lia) Pc). specialize (IHbd ltac:(lia) Pb). lia. }
+    assert (Hret : forall r, size_ret r <= n -> printable_ret r = true ->
+                     size_ret r <= List.length (pr_ret extra r)).
+    { intros [d e|q] Hr Pr; cbn [size_ret printable_ret] in *.
+      - rewrite pr_ret_return. cbn [List.length]. rewrite app_length. pose proof (Hpr 1 e ltac:(lia) Pr). lia.
+      - rewrite pr_ret_for. pose proof (IHq q ltac:(lia) Pr). lia. }
+    intros q Hs P.
+    destruct q as [v k s bd r|v d c bd r]; cbn [size_for printable_for] in *;
+      fold (sum_by size_clause bd) in *.
+    + apply andb_prop in P. destruct P as [P Pr]. apply andb_prop in P. destruct P as [P Pb].
+      apply andb_prop in P. destruct P as [P Ps]. apply andb_prop in P. destruct P as [_ Pso].
+      rewrite pr_for_in. cbn [List.length]. rewrite !app_length. cbn [List.length]. rewrite !app_length.
+      pose proof (IHe s ltac:(lia) Ps). pose proof (Hclauses bd ltac:(lia) Pb). pose proof (Hret r ltac:(lia) Pr).
+      lia.
+    + apply andb_prop in P. destruct P as [P Pr]. apply andb_prop in P. destruct P as [P Pb].
+      apply andb_prop in P. destruct P as [_ Pc].
+      rewrite pr_for_while. cbn [List.length]. rewrite !app_length. cbn [List.length]. rewrite !app_length.
+      pose proof (Hpr 1 c ltac:(lia) Pc). pose proof (Hclauses bd ltac:(lia) Pb). pose proof (Hret r ltac:(lia) Pr).
+      lia.
 Qed.
 
 Lemma size_le_pr : forall extra m e, printable e = true -> size e <= List.length (pr extra m e).
 Proof.
   intros extra m e P. unfold pr. pose proof (len_wrap (needs extra m e) (body extra e)).
-  pose proof (size_le_len extra (size e) e (le_n _) P). lia.
+  pose proof (proj1 (size_le_joint extra (size e)) e (le_n _) P). lia.
 Qed.
+
+(* ================================================== whole programs *)
+Definition printable_stmt (s : stmt) : bool :=
+  match s with
+  | SLet x e => let_ok x && printable e
+  | SCall e => call_stmt_ok e && printable e
+  end.
+Definition printable_prog (p : program) : bool :=
+  forallb printable_stmt (p_stmts p)
+  && match p_ret p with BReturn e => printable e | BFor q => printable_for q end.
+Definition size_stmt (s : stmt) : nat := match s with SLet _ e => S (size e) | SCall e => size e end.
+Definition size_bret (r : bodyret) : nat :=
+  match r with BReturn e => S (size e) | BFor q => S (size_for q) end.
+Definition size_prog (p : program) : nat := sum_by size_stmt (p_stmts p) + size_bret (p_ret p).
+
+Definition consp (s : stmt) (p : program) : program := {| p_stmts := s :: p_stmts p; p_ret := p_ret p |}.
+
+Lemma pb_return : forall pe g t r,
+  parse_body pe (S g) ((KReturn, t) :: r)
+  = mapr (fun de => {| p_stmts := []; p_ret := BReturn (snd de) |}) (parse_return pe r).
+Proof. reflexivity. Qed.
+Lemma pb_for : forall pe g t r,
+  parse_body pe (S g) ((KFor, t) :: r)
+  = mapr (fun q => {| p_stmts := []; p_ret := BFor q |}) (parse_for pe (S g) r).
+Proof. reflexivity. Qed.
+Lemma pb_let : forall pe g t k x a r,
+  parse_body pe (S g) ((KLet, t) :: (k, x) :: (KAssign, a) :: r)
+  = if is_varname k || is_loopvar k
+    then bindr (pe false 1 r) (fun e r' => mapr (consp (SLet x e)) (parse_body pe g r'))
+    else PFail.
+Proof.
+  intros. cbn [parse_body parse_let]. destruct (is_varname k || is_loopvar k); [|reflexivity].
+  destruct (pe false 1 r); reflexivity.
+Qed.
+Lemma pb_call : forall pe g f t x,
+  parse_body pe (S g) ((KIdent, f) :: (KLParen, t) :: x)
+  = bindr (call_stmt pe (S g) ((KIdent, f) :: (KLParen, t) :: x))
+      (fun c r' => mapr (consp (SCall c)) (parse_body pe g r')).
+Proof. reflexivity. Qed.
+
+Section Prog.
+  Variable extra : expr -> bool.
+  Local Notation bodyx := (body extra).
+  Local Notation prx := (pr extra).
+
+  Definition pr_bret (r : bodyret) : toks :=
+    match r with BReturn e => tk KReturn "RETURN" :: prx 1 e | BFor q => pr_for extra q end.
+
+  Lemma print_program_eq : forall p,
+    print_program extra p = flat_map (pr_stmt extra) (p_stmts p) ++ pr_bret (p_ret p).
+  Proof. intros [ss r]. destruct r; reflexivity. Qed.
+
+  Lemma pr_stmt_let : forall x e,
+    pr_stmt extra (SLet x e) = tk KLet "LET" :: word_tok x :: tk KAssign "=" :: prx 1 e.
+  Proof. reflexivity. Qed.
+  Lemma pr_stmt_call : forall e, pr_stmt extra (SCall e) = pr_clause extra (CCall e).
+  Proof. reflexivity. Qed.
+
+  Lemma pr_bret_cstarts : forall r tl, cstarts (pr_bret r ++ tl).
+  Proof.
+    intros [e|q] tl; cbn [pr_bret].
+    - eexists KReturn, _, _. split; reflexivity.
+    - destruct q; [rewrite pr_for_in|rewrite pr_for_while]; eexists KFor, _, _; split; reflexivity.
+  Qed.
+
+  Lemma stmts_cstarts : forall ss r tl,
+    forallb printable_stmt ss = true -> cstarts (flat_map (pr_stmt extra) ss ++ pr_bret r ++ tl).
+  Proof.
+    intros ss r tl P. destruct ss as [|s ss].
+    - cbn [flat_map app]. apply pr_bret_cstarts.
+    - simpl in P. apply andb_prop in P. destruct P as [Ps _].
+      cbn [flat_map]. rewrite <- app_assoc.
+      destruct s as [x e|e].
+      + rewrite pr_stmt_let. eexists KLet, _, _. split; reflexivity.
+      + rewrite pr_stmt_call. apply pr_clause_cstarts. exact Ps.
+  Qed.
+
+  Lemma bret_good : forall r rest f g,
+    match r with BReturn e => printable e | BFor q => printable_for q end = true ->
+    ctx_ok false 0 1 rest -> 64 * size_bret r + 16 <= f -> size_bret r < g ->
+    parse_body (parse_at ch f) g (pr_bret r ++ rest) = POk {| p_stmts := []; p_ret := r |} rest.
+  Proof.
+    intros r rest f g P Hc Hf Hg. destruct g; [lia|].
+    destruct r as [e|q]; cbn [pr_bret size_bret] in *.
+    - cbn [app]. unfold tk. rewrite pb_return.
+      destruct (pr_hd_kind extra 1 e rest P) as (k & Hk & Hg' & _).
+      rewrite (parse_return_plain _ _ k Hk (good_head_not_distinct k Hg')).
+      rewrite (expr_at extra (size e) (fun e0 H0 P0 => good_all extra (size e) e0 H0 P0)); auto; try lia.
+    - rewrite (pr_for_tail extra). cbn [app]. unfold tk. rewrite pb_for.
+      rewrite (good_for_all extra q P); auto; try lia.
+  Qed.
+
+  Lemma stmts_good : forall ss r rest f g,
+    forallb printable_stmt ss = true ->
+    match r with BReturn e => printable e | BFor q => printable_for q end = true ->
+    ctx_ok false 0 1 rest ->
+    64 * (sum_by size_stmt ss + size_bret r) + 80 <= f -> sum_by size_stmt ss + size_bret r < g ->
+    parse_body (parse_at ch f) g (flat_map (pr_stmt extra) ss ++ pr_bret r ++ rest)
+    = POk {| p_stmts := ss; p_ret := r |} rest.
+  Proof.
+    induction ss as [|s ss IHss]; intros r rest f g Ps Pr Hc Hf Hg.
+    - cbn [flat_map app]. unfold sum_by in *. simpl in *. apply bret_good; auto; lia.
+    - destruct g; [lia|].
+      simpl in Ps. apply andb_prop in Ps. destruct Ps as [P1 Ps].
+      change (sum_by size_stmt (s :: ss)) with (size_stmt s + sum_by size_stmt ss) in *.
+      assert (Hrp : 1 <= size_bret r) by (destruct r; simpl; lia).
+      pose proof (stmts_cstarts ss r rest Ps) as HT.
+      pose proof (cstarts_ctx _ HT) as HcT.
+      assert (IHt : parse_body (parse_at ch f) g (flat_map (pr_stmt extra) ss ++ pr_bret r ++ rest)
+                    = POk {| p_stmts := ss; p_ret := r |} rest).
+      { apply IHss; auto; try lia.
+        - destruct s; cbn [size_stmt] in *; [lia|pose proof (size_pos e); lia]. }
+      cbn [flat_map]. rewrite <- app_assoc.
+      set (T := flat_map (pr_stmt extra) ss ++ pr_bret r ++ rest) in *.
+      destruct s as [x e|e]; cbn [size_stmt printable_stmt] in *.
+      + (* LET *) apply andb_prop in P1. destruct P1 as [Px Pe].
+        rewrite pr_stmt_let. cbn [app]. unfold word_tok, tk. rewrite pb_let.
+        unfold let_ok in Px. rewrite Px.
+        rewrite (expr_at extra (size e) (fun e0 H0 P0 => good_all extra (size e) e0 H0 P0)); auto; try lia.
+        cbn [bindr]. rewrite IHt. reflexivity.
+      + (* call statement *) apply andb_prop in P1. destruct P1 as [Pc Pe].
+        destruct (cstarts_facts T HT) as (_ & _ & HqT & _).
+        rewrite pr_stmt_call.
+        destruct e; try discriminate.
+        * rewrite pr_clause_call, body_call.
+          simpl in Pe. apply andb_prop in Pe. destruct Pe as [Pf Pa].
+          change (size (ECall f0 args)) with (S (sum_size args)) in *. pose proof (len_le_sum args).
+          destruct (call_parts f0 Pf) as [Hk _].
+          unfold word_tok, LP, RP, tk. rewrite Hk. cbn [app]. rewrite pb_call.
+          rewrite <- app_assoc. cbn [app].
+          rewrite (call_stmt_plain _ _ _ (ECall f0 args) T); [cbn [bindr]; rewrite IHt; reflexivity| |exact HqT].
+          rewrite parse_call_ident.
+          pose proof (call_parsed extra (sum_size args) (fun e0 H0 P0 => good_all extra (sum_size args) e0 H0 P0)
+                        f0 args T f (S g) Pf) as Hp. unfold RP, tk in Hp.
+          apply Hp; try lia. apply all_ok_of; [exact Pa|lia].
+        * destruct e; try discriminate. rewrite pr_clause_callq, body_call.
+          simpl in Pe. apply andb_prop in Pe. destruct Pe as [Pf Pa].
+          change (size (ESuppress (ECall f0 args))) with (S (S (sum_size args))) in *. pose proof (len_le_sum args).
+          destruct (call_parts f0 Pf) as [Hk _].
+          unfold word_tok, LP, RP, tk. rewrite Hk. cbn [app]. rewrite pb_call.
+          rewrite <- !app_assoc. cbn [app].
+          rewrite (call_stmt_q _ _ _ (ECall f0 args) (bs "?") T); [cbn [bindr]; rewrite IHt; reflexivity|].
+          rewrite parse_call_ident.
+          pose proof (call_parsed extra (sum_size args) (fun e0 H0 P0 => good_all extra (sum_size args) e0 H0 P0)
+                        f0 args ((KQuestion, bs "?") :: T) f (S g) Pf) as Hp. unfold RP, tk in Hp.
+          apply Hp; try lia. apply all_ok_of; [exact Pa|lia].
+  Qed.
+
+  (* token count of a program *)
+  Lemma size_prog_le : forall p, printable_prog p = true ->
+    size_prog p <= List.length (print_program extra p).
+  Proof.
+    intros p P. unfold printable_prog in P. apply andb_prop in P. destruct P as [Ps Pr].
+    rewrite print_program_eq. rewrite app_length. unfold size_prog.
+    assert (H1 : sum_by size_stmt (p_stmts p) <= List.length (flat_map (pr_stmt extra) (p_stmts p))).
+    { induction (p_stmts p) as [|s ss IHss]; [simpl; lia|].
+      simpl in Ps. apply andb_prop in Ps. destruct Ps as [P1 Ps]. specialize (IHss Ps).
+      change (sum_by size_stmt (s :: ss)) with (size_stmt s + sum_by size_stmt ss).
+      cbn [flat_map]. rewrite app_length.
+      destruct s as [x e|e]; cbn [size_stmt printable_stmt] in *.
+      - apply andb_prop in P1. destruct P1 as [_ Pe]. rewrite pr_stmt_let. cbn [List.length].
+        pose proof (size_le_pr extra 1 e Pe). lia.
+      - apply andb_prop in P1. destruct P1 as [Pc Pe]. rewrite pr_stmt_call.
+        pose proof (proj1 (size_le_joint extra (size e)) e (le_n _) Pe).
+        destruct e; try discriminate.
+        + rewrite pr_clause_call. lia.
+        + destruct e; try discriminate. rewrite pr_clause_callq. rewrite app_length. cbn [List.length].
+          simpl in Pe. pose proof (proj1 (size_le_joint extra (size (ECall f args))) (ECall f args) (le_n _) Pe).
+          cbn [size] in *. lia. }
+    assert (H2 : size_bret (p_ret p) <= List.length (pr_bret (p_ret p))).
+    { destruct (p_ret p) as [e|q]; cbn [size_bret pr_bret List.length].
+      - pose proof (size_le_pr extra 1 e Pr). lia.
+      - pose proof (proj2 (size_le_joint extra (size_for q)) q (le_n _) Pr). lia. }
+    lia.
+  Qed.
+End Prog.
 
 End Ch.
 
@@ -1696,4 +3601,45 @@ Proof.
   intros extra e s P Hd Hc. split.
   - intros ch. apply return_then_suffix; assumption.
   - apply no_silent_suffix_lemma; assumption.
+Qed.
+
+(* ------------------------------------------------ whole programs *)
+(* every printable program, printed (with minimal or redundant parentheses), is
+   read back as itself under every reading of the undecided '?' tokens, with
+   the fuel the model uses *)
+Theorem parse_print_program_any : forall ch extra p, printable_prog p = true ->
+  parse_prefix_with ch (print_program extra p) = POk p [].
+Proof.
+  intros ch extra p P. unfold parse_prefix_with.
+  pose proof (size_prog_le extra p P) as Hlen.
+  set (F := fuel_for (print_program extra p)).
+  assert (HF : 64 * size_prog p + 80 <= F) by (unfold F, fuel_for; lia).
+  unfold printable_prog in P. apply andb_prop in P. destruct P as [Ps Pr].
+  rewrite print_program_eq. destruct p as [ss r]. cbn [p_stmts p_ret] in *.
+  rewrite <- (app_nil_r (pr_bret extra r)).
+  unfold size_prog in HF. cbn [p_stmts p_ret] in HF.
+  apply stmts_good; auto; try apply ctx_nil; lia.
+Qed.
+
+Theorem parse_print_program_lemma : forall extra p, printable_prog p = true ->
+  parse_program (print_program extra p) = Some p.
+Proof.
+  intros extra p P. apply all_readings_agree. intros ch. apply parse_print_program_any. exact P.
+Qed.
+
+(* a loop on its own is a program *)
+Definition for_prog (q : forq) : program := {| p_stmts := []; p_ret := BFor q |}.
+Theorem parse_print_for_lemma : forall extra q, printable_for q = true ->
+  parse_program (pr_for extra q) = Some (for_prog q).
+Proof.
+  intros extra q P.
+  change (pr_for extra q) with (print_program extra (for_prog q)).
+  apply parse_print_program_lemma. exact P.
+Qed.
+
+Theorem parse_parens_program_lemma : forall extra p, printable_prog p = true ->
+  parse_program (print_program extra p) = parse_program (print_min p).
+Proof.
+  intros extra p P. unfold print_min.
+  rewrite (parse_print_program_lemma extra p P), (parse_print_program_lemma no_extra p P). reflexivity.
 Qed.
